@@ -1,4 +1,5 @@
-(* C13 — proofs about Model/ExtraDims.v: descriptor codec, VLR synchronisation, reallocation by name,
+(* C13 — proofs about Model/ExtraDims.v: descriptor codec, VLR synchronisation, reallocation by name, conversion,
+   un-registered trailing bytes (truncated re-reads), construction from a format with extra dimensions,
    the invariant over histories, the frame property (other dimensions keep their values), the round trip,
    bad removals. *)
 From Coq Require Import String Ascii.
@@ -480,18 +481,63 @@ Proof.
   rewrite realloc_snd. now apply (realloc_wf ex).
 Qed.
 
-Lemma add_inv s ps : Inv s -> op_okb s (Add ps) = true -> Inv (fst (do_add s ps)).
+Lemma Inv_B s : Inv s -> InvB s.
+Proof. now intros [H _]. Qed.
+Lemma Inv_2 s : Inv s -> Inv2 s.
+Proof. intros [H V]. split; [exact H|now left]. Qed.
+Lemma Inv2_B s : Inv2 s -> InvB s.
+Proof. now intros [H _]. Qed.
+
+Lemma std_sizes_nonneg : forallb (fun row : Z * Z * list (string * Z * Z * string) => 0 <=? snd (fst row)) point_formats = true.
+Proof. vm_compute. reflexivity. Qed.
+
+Lemma std_size_nonneg f std : std_size f = Some std -> 0 <= std.
 Proof.
-  intros [(std & Hstd & Hpos & Hrecs) Hdims [Hnd Hns] Hvlr] Hok. unfold do_add.
-  destruct (forallb edim_okb ps) eqn:Eps; cbn [negb]; [|now constructor; eauto].
+  unfold std_size. destruct (find _ point_formats) as [row|] eqn:E; [|discriminate]. intros [= <-].
+  apply find_some in E as [Hin _]. pose proof (proj1 (forallb_forall _ _) std_sizes_nonneg row Hin). lia.
+Qed.
+
+Definition recs_wf (s : state) (recs' : list xrec) : Prop :=
+  forall std, std_size (st_fmt s) = Some std -> forall r, In r recs' -> rec_wf std (st_extras s) r.
+
+(* an operation that only replaces the records by records of the same layout keeps the base invariant *)
+Lemma InvB_recs s recs' : InvB s ->
+  (recs_wf s recs') ->
+  InvB (mkSt (st_fmt s) (st_extras s) recs' (st_vlrs s)).
+Proof.
+  intros [(std & Hstd & Hpos & Hrecs) Hdims Hnames] H. constructor; cbn [st_fmt st_extras st_recs st_vlrs]; try assumption.
+  exists std. split; [exact Hstd|]. split; [exact Hpos|]. now apply H.
+Qed.
+
+Lemma Inv2_recs s recs' : Inv2 s ->
+  (recs_wf s recs') ->
+  Inv2 (mkSt (st_fmt s) (st_extras s) recs' (st_vlrs s)).
+Proof. intros [HB HV] H. split; [now apply InvB_recs|exact HV]. Qed.
+
+Lemma Inv_recs s recs' : Inv s ->
+  (recs_wf s recs') ->
+  Inv (mkSt (st_fmt s) (st_extras s) recs' (st_vlrs s)).
+Proof. intros [HB HV] H. split; [now apply InvB_recs|exact HV]. Qed.
+
+(* ---- add ---- *)
+Lemma add_refused s ps : forallb edim_okb ps = false -> do_add s ps = (s, Err EValue).
+Proof. intros H. unfold do_add. now rewrite H. Qed.
+
+Lemma add_inv s ps : InvB s -> op_okb s (Add ps) = true -> forallb edim_okb ps = true ->
+  Inv (fst (do_add s ps)) /\ snd (do_add s ps) = Ok tt /\ st_extras (fst (do_add s ps)) = st_extras s ++ ps
+  /\ st_recs (fst (do_add s ps)) = map (realloc (st_extras s ++ ps)) (st_recs s) /\ st_fmt (fst (do_add s ps)) = st_fmt s
+  /\ filter not_eb (st_vlrs (fst (do_add s ps))) = filter not_eb (st_vlrs s).
+Proof.
+  intros [(std & Hstd & Hpos & Hrecs) Hdims [Hnd Hns]] Hok Eps. unfold do_add. rewrite Eps. cbn [negb].
   assert (forallb edim_okb (st_extras s ++ ps) = true) as Hall by (rewrite forallb_app, Hdims, Eps; reflexivity).
-  destruct (sync_inv _ (st_vlrs s) Hall) as (vl' & -> & Hinv' & _). cbn [fst].
+  destruct (sync_inv _ (st_vlrs s) Hall) as (vl' & -> & Hinv' & Hkept). cbn [fst snd st_extras st_recs st_fmt st_vlrs].
+  split; [|now repeat split].
   cbn [op_okb] in Hok. apply andb_true_iff in Hok as [Hpd Hpf].
   apply nodupb_NoDup in Hnd. apply nodupb_NoDup in Hpd.
   assert (forall n, In n (extra_names ps) -> ~ In n (extra_names (st_extras s)) /\ mem_name n (std_names (st_fmt s)) = false) as Hfresh.
   { intros n Hn. pose proof (proj1 (forallb_forall _ _) Hpf n Hn) as Hf. apply andb_true_iff in Hf as [H1 H2].
     apply negb_true_iff in H1, H2. split; [now apply mem_name_false|exact H2]. }
-  constructor; cbn [st_fmt st_extras st_recs st_vlrs].
+  split; [|exact Hinv']. constructor; cbn [st_fmt st_extras st_recs st_vlrs].
   - exists std. split; [exact Hstd|]. split; [exact Hpos|]. intros r' Hr'. apply in_map_iff in Hr' as (r & <- & Hr).
     apply (realloc_rec_wf std (st_extras s)); [now apply Hrecs|exact Hnd|].
     intros d Hd. split; [now apply (edims_size_nonneg _ Hall)|].
@@ -500,18 +546,28 @@ Proof.
   - unfold extra_names. rewrite map_app. fold (extra_names (st_extras s)). fold (extra_names ps). split.
     + apply nodupb_NoDup. apply NoDup_app_intro; [exact Hnd|exact Hpd|]. intros n Hn Hp. now apply (Hfresh n Hp).
     + rewrite forallb_app, Hns. cbn [andb]. apply forallb_forall. intros n Hn. apply negb_true_iff. now apply Hfresh.
-  - exact Hinv'.
 Qed.
 
-Lemma remove_inv s names : Inv s -> Inv (fst (do_remove s names)).
+(* ---- remove ---- *)
+Definition remove_okb (s : state) (names : list (list Z)) : bool :=
+  forallb (fun n => mem_name n (extra_names (st_extras s))) names && nodupb names.
+Definition removed (s : state) (names : list (list Z)) : list edim :=
+  filter (fun d => negb (mem_name (ed_name d) names)) (st_extras s).
+
+Lemma remove_refused s names : remove_okb s names = false -> do_remove s names = (s, Err ELaspy).
+Proof. intros H. unfold do_remove. fold (remove_okb s names). now rewrite H. Qed.
+
+Lemma remove_inv s names : InvB s -> remove_okb s names = true ->
+  Inv (fst (do_remove s names)) /\ snd (do_remove s names) = Ok tt /\ st_extras (fst (do_remove s names)) = removed s names
+  /\ st_recs (fst (do_remove s names)) = map (realloc (removed s names)) (st_recs s) /\ st_fmt (fst (do_remove s names)) = st_fmt s
+  /\ filter not_eb (st_vlrs (fst (do_remove s names))) = filter not_eb (st_vlrs s).
 Proof.
-  intros Hinv. pose proof Hinv as [(std & Hstd & Hpos & Hrecs) Hdims [Hnd Hns] Hvlr]. unfold do_remove.
-  destruct (negb _); [exact Hinv|].
-  set (ex' := filter (fun d => negb (mem_name (ed_name d) names)) (st_extras s)).
+  intros [(std & Hstd & Hpos & Hrecs) Hdims [Hnd Hns]] Hok. unfold do_remove. fold (remove_okb s names). rewrite Hok. cbn [negb].
+  fold (removed s names). set (ex' := removed s names).
   assert (forallb edim_okb ex' = true) as Hall by (now apply forallb_filter).
-  destruct (sync_inv _ (st_vlrs s) Hall) as (vl' & -> & Hinv' & _). cbn [fst].
-  apply nodupb_NoDup in Hnd.
-  constructor; cbn [st_fmt st_extras st_recs st_vlrs].
+  destruct (sync_inv _ (st_vlrs s) Hall) as (vl' & -> & Hinv' & Hkept). cbn [fst snd st_extras st_recs st_fmt st_vlrs].
+  split; [|now repeat split]. apply nodupb_NoDup in Hnd.
+  split; [|exact Hinv']. constructor; cbn [st_fmt st_extras st_recs st_vlrs].
   - exists std. split; [exact Hstd|]. split; [exact Hpos|]. intros r' Hr'. apply in_map_iff in Hr' as (r & <- & Hr).
     apply (realloc_rec_wf std (st_extras s)); [now apply Hrecs|exact Hnd|].
     intros d Hd. split; [now apply (edims_size_nonneg _ Hall)|]. left. now apply filter_In in Hd as [Hd _].
@@ -520,9 +576,9 @@ Proof.
     + apply nodupb_NoDup. now apply NoDup_map_filter.
     + apply forallb_forall. intros n Hn. apply in_map_iff in Hn as (d & <- & Hd). apply filter_In in Hd as [Hd _].
       apply (proj1 (forallb_forall _ _) Hns). now apply in_map.
-  - exact Hinv'.
 Qed.
 
+(* ---- assignments ---- *)
 Lemma entries_set ex n v : forall m, entries_wf ex m ->
   (forall d', In d' ex -> ed_name d' = n -> et_size (ed_type d') = len v) ->
   entries_wf ex (map (fun kv => if name_eqb (fst kv) n then (fst kv, v) else kv) m).
@@ -539,14 +595,20 @@ Qed.
 Lemma find_dim_some n ex d : find_dim n ex = Some d -> In d ex /\ ed_name d = n.
 Proof. unfold find_dim. intros H. apply find_some in H as [Hi He]. now apply name_eqb_eq in He. Qed.
 
-Lemma assign_inv s n vals : Inv s -> Inv (fst (do_assign s n vals)).
+(* every operation that is not an add / remove / conversion / re-read leaves format id, extra dimensions and VLRs alone *)
+Lemma assign_shape s n vals : InvB s ->
+  exists recs', fst (do_assign s n vals) = mkSt (st_fmt s) (st_extras s) recs' (st_vlrs s)
+    /\ recs_wf s recs'.
 Proof.
-  intros Hinv. pose proof Hinv as [(std & Hstd & Hpos & Hrecs) Hdims [Hnd Hns] Hvlr]. unfold do_assign.
-  destruct (find_dim n (st_extras s)) as [d|] eqn:Ef; [|exact Hinv].
-  destruct (_ && _) eqn:Ec; [|exact Hinv]. cbn [fst]. apply andb_true_iff in Ec as [Hlen Hvals].
+  intros [(std & Hstd & Hpos & Hrecs) Hdims [Hnd Hns]].
+  assert (exists recs', s = mkSt (st_fmt s) (st_extras s) recs' (st_vlrs s)
+            /\ recs_wf s recs') as Hsame.
+  { exists (st_recs s). split; [now destruct s|]. intros std' Hstd' r Hr. rewrite Hstd in Hstd'. injection Hstd' as <-. now apply Hrecs. }
+  unfold do_assign.
+  destruct (find_dim n (st_extras s)) as [d|] eqn:Ef; [|exact Hsame].
+  destruct (_ && _) eqn:Ec; [|exact Hsame]. cbn [fst]. apply andb_true_iff in Ec as [Hlen Hvals].
   destruct (find_dim_some _ _ _ Ef) as [Hd Hdn]. apply nodupb_NoDup in Hnd.
-  constructor; cbn [st_fmt st_extras st_recs st_vlrs]; try assumption; [|now split; [apply nodupb_NoDup|]].
-  exists std. split; [exact Hstd|]. split; [exact Hpos|]. intros r' Hr'.
+  eexists. split; [reflexivity|]. intros std' Hstd' r' Hr'. rewrite Hstd in Hstd'. injection Hstd' as <-.
   apply in_map_iff in Hr' as ([v r] & <- & Hvr). cbn [fst snd].
   pose proof (in_combine_l _ _ _ _ Hvr) as Hv. pose proof (in_combine_r _ _ _ _ Hvr) as Hr.
   pose proof (proj1 (forallb_forall _ _) Hvals v Hv) as Hvok. apply andb_true_iff in Hvok as [Hvl _].
@@ -555,18 +617,21 @@ Proof.
   intros d' Hd' Hn'. rewrite (NoDup_map_inj_in ed_name _ Hnd d' d Hd' Hd) by congruence. lia.
 Qed.
 
-Lemma assign_std_inv s vals : Inv s -> Inv (fst (do_assign_std s vals)).
+Lemma assign_std_shape s vals : InvB s ->
+  exists recs', fst (do_assign_std s vals) = mkSt (st_fmt s) (st_extras s) recs' (st_vlrs s)
+    /\ recs_wf s recs'.
 Proof.
-  intros Hinv. pose proof Hinv as [(std & Hstd & Hpos & Hrecs) Hdims Hnames Hvlr]. unfold do_assign_std.
-  rewrite Hstd. destruct (_ && _) eqn:Ec; [|exact Hinv]. cbn [fst]. apply andb_true_iff in Ec as [Hlen Hvals].
-  constructor; cbn [st_fmt st_extras st_recs st_vlrs]; try assumption.
-  exists std. split; [exact Hstd|]. split; [exact Hpos|]. intros r' Hr'.
+  intros [(std & Hstd & Hpos & Hrecs) Hdims Hnames].
+  assert (exists recs', s = mkSt (st_fmt s) (st_extras s) recs' (st_vlrs s)
+            /\ recs_wf s recs') as Hsame.
+  { exists (st_recs s). split; [now destruct s|]. intros std' Hstd' r Hr. rewrite Hstd in Hstd'. injection Hstd' as <-. now apply Hrecs. }
+  unfold do_assign_std. rewrite Hstd. destruct (_ && _) eqn:Ec; [|exact Hsame]. cbn [fst]. apply andb_true_iff in Ec as [Hlen Hvals].
+  eexists. split; [reflexivity|]. intros std' Hstd' r' Hr'. rewrite Hstd in Hstd'. injection Hstd' as <-.
   apply in_map_iff in Hr' as ([v r] & <- & Hvr). cbn [fst snd].
   pose proof (in_combine_l _ _ _ _ Hvr) as Hv. pose proof (in_combine_r _ _ _ _ Hvr) as Hr.
   pose proof (proj1 (forallb_forall _ _) Hvals v Hv) as Hvok. apply andb_true_iff in Hvok as [Hvl _].
   apply rec_wf_entries. destruct (proj1 (rec_wf_entries _ _ _) (Hrecs r Hr)) as [Hs Hm]. cbn [fst snd]. split; [lia|exact Hm].
 Qed.
-
 (* ------------------------------------------------------------------------------------ *)
 (* whole-record assignment (the LasData.points setter)                                   *)
 (* ------------------------------------------------------------------------------------ *)
@@ -628,32 +693,37 @@ Proof.
   intros H Hb. pose proof (proj1 (forallb_forall _ _) H b Hb) as Hx. apply andb_true_iff in Hx as [Hx _]. lia.
 Qed.
 
-Lemma set_points_inv s ex recs : Inv s -> Inv (fst (do_set_points s ex recs)).
+Lemma set_points_shape s ex recs : InvB s ->
+  exists recs', fst (do_set_points s ex recs) = mkSt (st_fmt s) (st_extras s) recs' (st_vlrs s)
+    /\ recs_wf s recs'.
 Proof.
-  intros Hinv. pose proof Hinv as [(std & Hstd & Hpos & Hrecs) Hdims Hnames Hvlr]. unfold do_set_points. rewrite Hstd.
-  destruct (recs_okb std ex recs) eqn:Eok; cbn [negb]; [|exact Hinv].
-  destruct (fmt_eqv ex (st_extras s)) eqn:Eeq; cbn [negb]; [|exact Hinv]. cbn [fst].
-  constructor; cbn [st_fmt st_extras st_recs st_vlrs]; try assumption.
-  exists std. split; [exact Hstd|]. split; [exact Hpos|]. intros r Hr. apply in_map_iff in Hr as (b & <- & Hb).
+  intros [(std & Hstd & Hpos & Hrecs) Hdims Hnames].
+  assert (exists recs', s = mkSt (st_fmt s) (st_extras s) recs' (st_vlrs s)
+            /\ recs_wf s recs') as Hsame.
+  { exists (st_recs s). split; [now destruct s|]. intros std' Hstd' r Hr. rewrite Hstd in Hstd'. injection Hstd' as <-. now apply Hrecs. }
+  unfold do_set_points. rewrite Hstd.
+  destruct (recs_okb std ex recs) eqn:Eok; cbn [negb]; [|exact Hsame].
+  destruct (fmt_eqv ex (st_extras s)) eqn:Eeq; cbn [negb]; [|exact Hsame]. cbn [fst].
+  eexists. split; [reflexivity|]. intros std' Hstd' r Hr. rewrite Hstd in Hstd'. injection Hstd' as <-.
+  apply in_map_iff in Hr as (b & <- & Hb).
   apply split_rec_wf; [exact Hpos|now apply edims_size_nonneg|].
   rewrite <- (fmt_eqv_size _ _ Eeq). now apply (recs_okb_len std ex recs).
 Qed.
 
 (* an accepted whole-record assignment: the format and the VLRs stay, the record reads back byte for byte *)
-Theorem set_points_ok s ex recs std : Inv s -> std_size (st_fmt s) = Some std -> recs_okb std ex recs = true ->
+Theorem set_points_ok s ex recs std : Inv2 s -> std_size (st_fmt s) = Some std -> recs_okb std ex recs = true ->
   fmt_eqv ex (st_extras s) = true ->
   snd (step s (SetPoints ex recs)) = Ok tt
   /\ st_extras (fst (step s (SetPoints ex recs))) = st_extras s
   /\ st_vlrs (fst (step s (SetPoints ex recs))) = st_vlrs s
   /\ map rec_bytes (st_recs (fst (step s (SetPoints ex recs)))) = recs.
 Proof.
-  intros [(std' & Hstd' & Hpos & _) Hdims _ _] Hstd Hok Heq. rewrite Hstd in Hstd'. injection Hstd' as <-.
+  intros [[(std' & Hstd' & Hpos & _) Hdims _] _] Hstd Hok Heq. rewrite Hstd in Hstd'. injection Hstd' as <-.
   cbn [step]. unfold do_set_points. rewrite Hstd, Hok, Heq. cbn [negb fst snd st_extras st_vlrs st_recs].
   repeat split. rewrite map_map. rewrite <- (map_id recs) at 2. apply map_ext_in. intros b Hb.
   apply split_rec_wf; [exact Hpos|now apply edims_size_nonneg|].
   rewrite <- (fmt_eqv_size _ _ Heq). now apply (recs_okb_len std ex recs).
 Qed.
-
 (* a record whose format differs is refused with a LaspyException (IncompatibleDataFormat), nothing changes *)
 Theorem set_points_mismatch s ex recs std : std_size (st_fmt s) = Some std -> recs_okb std ex recs = true ->
   fmt_eqv ex (st_extras s) = false -> step s (SetPoints ex recs) = (s, Err ELaspy).
@@ -681,7 +751,7 @@ Proof.
   apply andb_true_iff in Hd as [H1 H2]. now rewrite (f64s_eqv_refl _ H1), (f64s_eqv_refl _ H2).
 Qed.
 
-Theorem set_points_same_format s recs std : Inv s -> std_size (st_fmt s) = Some std ->
+Theorem set_points_same_format s recs std : Inv2 s -> std_size (st_fmt s) = Some std ->
   forallb no_nan_scales (st_extras s) = true -> recs_okb std (st_extras s) recs = true ->
   snd (step s (SetPoints (st_extras s) recs)) = Ok tt
   /\ st_extras (fst (step s (SetPoints (st_extras s) recs))) = st_extras s
@@ -690,8 +760,74 @@ Theorem set_points_same_format s recs std : Inv s -> std_size (st_fmt s) = Some 
 Proof. intros Hinv Hstd Hnn Hok. apply (set_points_ok s _ recs std); try assumption. now apply fmt_eqv_refl. Qed.
 
 (* ------------------------------------------------------------------------------------ *)
-(* the write / read round trip                                                           *)
+(* conversion to another point format                                                    *)
 (* ------------------------------------------------------------------------------------ *)
+Definition convert_okb (s : state) (g : Z) (stds : list (list Z)) : bool :=
+  match std_size g with
+  | None => false
+  | Some gstd => (length stds =? length (st_recs s))%nat && forallb (fun v => (len v =? gstd) && bytes_ok v) stds
+  end.
+
+Lemma convert_refused s g stds : convert_okb s g stds = false -> fst (do_convert s g stds) = s /\ snd (do_convert s g stds) <> Ok tt.
+Proof.
+  unfold convert_okb, do_convert. destruct (std_size g); [|now split]. intros ->. now split.
+Qed.
+
+Lemma convert_inv s g stds : InvB s -> op_okb s (Convert g stds) = true -> convert_okb s g stds = true ->
+  Inv (fst (do_convert s g stds)) /\ snd (do_convert s g stds) = Ok tt
+  /\ st_extras (fst (do_convert s g stds)) = st_extras s /\ st_fmt (fst (do_convert s g stds)) = g
+  /\ st_recs (fst (do_convert s g stds)) = map (fun p => (fst p, snd (snd p))) (combine stds (st_recs s))
+  /\ filter not_eb (st_vlrs (fst (do_convert s g stds))) = filter not_eb (st_vlrs s).
+Proof.
+  intros [(std & Hstd & Hpos & Hrecs) Hdims [Hnd Hns]] Hok Hc. unfold convert_okb in Hc. unfold do_convert.
+  destruct (std_size g) as [gstd|] eqn:Eg; [|discriminate]. rewrite Hc.
+  destruct (sync_inv _ (st_vlrs s) Hdims) as (vl' & -> & Hinv' & Hkept). cbn [fst snd st_extras st_recs st_fmt st_vlrs].
+  split; [|now repeat split]. apply andb_true_iff in Hc as [Hlen Hvals].
+  split; [|exact Hinv']. constructor; cbn [st_fmt st_extras st_recs st_vlrs].
+  - exists gstd. split; [exact Eg|]. split; [now apply (std_size_nonneg g)|]. intros r' Hr'.
+    apply in_map_iff in Hr' as ([v r] & <- & Hvr). cbn [fst snd].
+    pose proof (in_combine_l _ _ _ _ Hvr) as Hv. pose proof (in_combine_r _ _ _ _ Hvr) as Hr.
+    pose proof (proj1 (forallb_forall _ _) Hvals v Hv) as Hvok. apply andb_true_iff in Hvok as [Hvl _].
+    apply rec_wf_entries. destruct (proj1 (rec_wf_entries _ _ _) (Hrecs r Hr)) as [Hs Hm]. cbn [fst snd]. split; [lia|exact Hm].
+  - exact Hdims.
+  - split; [exact Hnd|]. exact Hok.
+Qed.
+
+(* ------------------------------------------------------------------------------------ *)
+(* un-registered trailing bytes                                                          *)
+(* ------------------------------------------------------------------------------------ *)
+Lemma et_size_unreg n : 1 <= n -> et_size (ed_type (unreg n)) = n.
+Proof.
+  intros Hn. unfold unreg. cbn [ed_type]. destruct (Z_lt_le_dec n 4) as [Hlt|Hge].
+  - assert (n = 1 \/ n = 2 \/ n = 3) as [->|[->| ->]] by lia; reflexivity.
+  - now rewrite opaque_type_big.
+Qed.
+
+Lemma unreg_text_ok : (1 <=? len UNREG_NAME) && text_ok UNREG_NAME && text_ok UNREG_DESC = true.
+Proof. vm_compute. reflexivity. Qed.
+
+Lemma edim_ok_unreg n : 1 <= n <= 255 -> edim_okb (unreg n) = true.
+Proof.
+  intros Hn. pose proof unreg_text_ok as Ht. apply andb_true_iff in Ht as [Ht Hd]. apply andb_true_iff in Ht as [Hl Ht].
+  destruct (Z_lt_le_dec n 4) as [Hlt|Hge].
+  - assert (n = 1 \/ n = 2 \/ n = 3) as [->|[->| ->]] by lia; vm_compute; reflexivity.
+  - unfold edim_okb, unreg. cbn [ed_name ed_type ed_scale ed_desc]. rewrite opaque_type_big by lia. rewrite Hl, Ht, Hd.
+    cbn [et_ok andb]. rewrite andb_true_r. apply andb_true_iff. split; lia.
+Qed.
+
+Lemma edim_ok_unreg_inv n : 1 <= n -> edim_okb (unreg n) = true -> n <= 255.
+Proof.
+  intros Hn H. destruct (Z_lt_le_dec n 4) as [Hlt|Hge]; [lia|].
+  unfold edim_okb, unreg in H. cbn [ed_name ed_type ed_scale ed_desc] in H. rewrite opaque_type_big in H by lia.
+  split_andb. cbn [et_ok] in *. lia.
+Qed.
+
+Lemma extras_size_app a b : extras_size (a ++ b) = extras_size a + extras_size b.
+Proof. induction a as [|d a IH]; [reflexivity|]. cbn [app extras_size fold_right]. fold (extras_size (a ++ b)). fold (extras_size a). lia. Qed.
+
+Lemma extras_size_unreg n : 1 <= n -> extras_size [unreg n] = n.
+Proof. intros Hn. cbn [extras_size fold_right]. rewrite et_size_unreg by exact Hn. lia. Qed.
+
 Lemma extras_size_pos ex : forallb edim_okb ex = true -> ex <> [] -> 0 < extras_size ex.
 Proof.
   destruct ex as [|d ex]; [congruence|]. intros H _. cbn [forallb] in H. apply andb_true_iff in H as [Hd Hex].
@@ -701,49 +837,413 @@ Proof.
   cbn [extras_size fold_right]. pose proof (edim_ok_size e He). specialize (IH Hex). unfold extras_size in *. lia.
 Qed.
 
-Theorem roundtrip_id s : Inv s -> exists w, write_state s = Ok w /\ read_state w = Ok s.
+Lemma extras_size_zero ex : forallb edim_okb ex = true -> extras_size ex = 0 -> ex = [].
+Proof. intros H Hz. destruct ex as [|d ex]; [reflexivity|]. pose proof (extras_size_pos (d :: ex) H). assert (d :: ex <> []) by discriminate. lia. Qed.
+
+(* the payload of a prefix of the dimensions is the prefix of the payload *)
+Lemma payload_firstn ex : forall p k, forallb edim_okb ex = true -> eb_payload ex = Ok p ->
+  eb_payload (firstn k ex) = Ok (firstn (k * EB) p).
 Proof.
-  intros [(std & Hstd & Hpos & Hrecs) Hdims [Hnd Hns] Hvlr]. unfold write_state. rewrite Hstd.
-  eexists. split; [reflexivity|]. unfold read_state. cbn [w_fmt w_psize w_vlrs w_recs]. rewrite Hstd.
+  induction ex as [|d ex IH]; intros p k H Hp.
+  - injection Hp as <-. rewrite !firstn_nil. reflexivity.
+  - destruct k as [|k]; [reflexivity|]. cbn [forallb] in H. apply andb_true_iff in H as [Hd Hex]. cbn [eb_payload] in Hp.
+    destruct (descriptor_roundtrip d Hd) as (bs & Hbs & Hl & _). rewrite Hbs in Hp. cbn [bind] in Hp.
+    destruct (eb_payload ex) as [p'|] eqn:Ep; [|discriminate]. cbn [bind] in Hp. injection Hp as <-.
+    assert (length bs = EB) as Hlb by (apply len_length_eq; rewrite Hl; reflexivity).
+    cbn [firstn eb_payload]. rewrite Hbs. cbn [bind]. rewrite (IH p' k Hex eq_refl). cbn [bind].
+    replace (S k * EB)%nat with (length bs + k * EB)%nat by (rewrite Hlb; lia). now rewrite firstn_app_2.
+Qed.
+
+Lemma forallb_firstn_l {A} (f : A -> bool) n l : forallb f l = true -> forallb f (firstn n l) = true.
+Proof. apply forallb_firstn. Qed.
+
+(* ---- the VLR list of the shortened file ---- *)
+Lemma is_eb_cut k v : is_eb_vlr (cut_vlr k v) = is_eb_vlr v.
+Proof.
+  unfold cut_vlr. destruct (is_eb_vlr v) eqn:E; [|exact E]. unfold is_eb_vlr in *. cbn [v_uid v_rid v_data].
+  apply andb_true_iff in E as [E Hm]. rewrite E. cbn [andb]. apply Z.eqb_eq in Hm. apply Z.eqb_eq.
+  unfold len in *. rewrite firstn_length. destruct (Nat.min_spec (Z.to_nat k * EB) (length (v_data v))) as [[_ ->]|[_ ->]]; [|exact Hm].
+  rewrite EB_val, Nat2Z.inj_mul. change (Z.of_nat 192) with 192. apply Z.mod_mul. lia.
+Qed.
+
+Lemma filter_eb_cut k vl : filter is_eb_vlr (map (cut_vlr k) vl) = map (cut_vlr k) (filter is_eb_vlr vl).
+Proof.
+  induction vl as [|v vl IH]; [reflexivity|]. cbn [map filter]. rewrite is_eb_cut.
+  destruct (is_eb_vlr v); cbn [map]; now rewrite IH.
+Qed.
+
+Lemma filter_not_eb_cut k vl : filter not_eb (map (cut_vlr k) vl) = filter not_eb vl.
+Proof.
+  induction vl as [|v vl IH]; [reflexivity|]. cbn [map filter].
+  assert (not_eb (cut_vlr k v) = not_eb v) as -> by (unfold not_eb; now rewrite is_eb_cut).
+  destruct (not_eb v) eqn:E; rewrite IH; [|reflexivity]. f_equal. unfold not_eb in E. apply negb_true_iff in E.
+  unfold cut_vlr. now rewrite E.
+Qed.
+
+Lemma filter_not_eb_idem vl : filter not_eb (filter not_eb vl) = filter not_eb vl.
+Proof. apply filter_not_eb_id, filter_eb_kept. Qed.
+
+Theorem other_vlrs_trunc keep vl : filter not_eb (trunc_vlrs keep vl) = filter not_eb vl.
+Proof. destruct keep as [k|]; cbn [trunc_vlrs]; [apply filter_not_eb_cut|apply filter_not_eb_idem]. Qed.
+
+Lemma cut_eb_vlr k p : len p mod 192 = 0 -> cut_vlr k (eb_vlr p) = eb_vlr (firstn (Z.to_nat k * EB) p).
+Proof. intros H. unfold cut_vlr. now rewrite (is_eb_eb_vlr p H). Qed.
+
+Lemma vlr_desc_trunc reg vl keep : forallb edim_okb reg = true -> vlr_desc reg vl ->
+  vlr_desc (reread_kept keep reg) (trunc_vlrs keep vl).
+Proof.
+  intros Hok Hd. unfold vlr_desc in *. destruct keep as [k|]; cbn [trunc_vlrs reread_kept].
+  - rewrite filter_eb_cut. destruct (filter is_eb_vlr vl) as [|v [|v2 l]]; cbn [map].
+    + subst reg. now rewrite firstn_nil.
+    + destruct Hd as (p & Hp & -> & Hdec). pose proof (payload_mod _ _ Hok Hp) as Hm. rewrite (cut_eb_vlr k p Hm).
+      exists (firstn (Z.to_nat k * EB) p). split; [now apply payload_firstn|]. split; [reflexivity|].
+      pose proof (forallb_firstn edim_okb (Z.to_nat k) reg Hok) as Hokf.
+      destruct (payload_roundtrip _ Hokf) as (p' & Hp' & Hl & Hdp). rewrite (payload_firstn reg p (Z.to_nat k) Hok Hp) in Hp'.
+      injection Hp' as <-. apply Hdp. rewrite Hl, EB_val. lia.
+    + contradiction.
+  - now rewrite filter_eb_kept.
+Qed.
+
+Lemma vlr_inv_desc ex vl : vlr_inv ex vl -> vlr_desc ex vl /\ (ex = [] -> filter is_eb_vlr vl = []).
+Proof.
+  unfold vlr_inv, vlr_desc. destruct ex as [|d ex].
+  - intros ->. now split.
+  - intros (p & Hp & -> & Hd). split; [|discriminate]. exists p. now repeat split.
+Qed.
+
+Lemma vlr_desc_inv ex vl : vlr_desc ex vl -> (ex = [] -> filter is_eb_vlr vl = []) -> vlr_inv ex vl.
+Proof.
+  unfold vlr_inv, vlr_desc. intros Hd He. destruct ex as [|d ex]; [now apply He|].
+  destruct (filter is_eb_vlr vl) as [|v [|v2 l]]; [discriminate| |contradiction].
+  destruct Hd as (p & Hp & -> & Hdec). exists p. now repeat split.
+Qed.
+
+(* ------------------------------------------------------------------------------------ *)
+(* reading a file whose extra-bytes VLR registers a prefix of the extra dimensions        *)
+(* ------------------------------------------------------------------------------------ *)
+Definition reread_extras (kept rest : list edim) : list edim :=
+  match rest with [] => kept | _ => kept ++ [unreg (extras_size rest)] end.
+
+Lemma read_prefix s std reg rest vl' :
+  InvB s -> std_size (st_fmt s) = Some std -> st_extras s = reg ++ rest ->
+  vlr_desc reg vl' -> (reg = [] -> rest = [] -> filter is_eb_vlr vl' = []) ->
+  read_state (mkWire (st_fmt s) (std + extras_size (st_extras s)) vl' (map rec_bytes (st_recs s)))
+  = Ok (mkSt (st_fmt s) (reread_extras reg rest) (map (split_rec std (reread_extras reg rest)) (map rec_bytes (st_recs s))) vl').
+Proof.
+  intros [(std' & Hstd' & Hpos & Hrecs) Hdims _] Hstd Hex Hd Hnone. rewrite Hstd in Hstd'. injection Hstd' as <-.
+  unfold read_state. cbn [w_fmt w_psize w_vlrs w_recs]. rewrite Hstd.
   assert (forallb (fun b => len b =? std + extras_size (st_extras s)) (map rec_bytes (st_recs s)) = true) as Hlens.
   { apply forallb_forall. intros b Hb. apply in_map_iff in Hb as (r & <- & Hr). apply Z.eqb_eq. now apply rec_wf_len, Hrecs. }
-  assert (map (split_rec std (st_extras s)) (map rec_bytes (st_recs s)) = st_recs s) as Hsplit.
-  { rewrite map_map. rewrite <- (map_id (st_recs s)) at 2. apply map_ext_in. intros r Hr. now apply split_rec_bytes, Hrecs. }
-  destruct (st_extras s) as [|d ex] eqn:Eex.
-  - unfold vlr_inv in Hvlr. rewrite Hvlr. cbn [bind]. rewrite Z.ltb_irrefl, Z.gtb_ltb, Z.ltb_irrefl.
-    rewrite Hlens, Hsplit. destruct s; cbn in *; now subst.
-  - unfold vlr_inv in Hvlr. destruct Hvlr as (p & Hp & Hf & Hd). rewrite Hf.
-    assert (0 < extras_size (d :: ex)) as Hsz by (apply extras_size_pos; [exact Hdims|discriminate]).
-    replace (std + extras_size (d :: ex) =? std) with false by lia.
-    cbn [eb_vlr v_data]. rewrite Hd. cbn [bind]. rewrite Z.ltb_irrefl, Z.gtb_ltb, Z.ltb_irrefl.
-    rewrite Hlens, Hsplit. destruct s; cbn in *; now subst.
+  rewrite Hex in *. rewrite forallb_app in Hdims. apply andb_true_iff in Hdims as [Hdreg Hdrest].
+  rewrite extras_size_app in *.
+  assert (0 <= extras_size reg) as Hnr by (apply extras_size_nonneg; now apply edims_size_nonneg).
+  assert (rest <> [] -> 0 < extras_size rest) as Hprest by (now apply extras_size_pos).
+  pose proof (eq_refl : extras_size (@nil edim) = 0) as H0.
+  unfold vlr_desc in Hd. destruct (filter is_eb_vlr vl') as [|v [|v2 l]] eqn:Ef; [| |contradiction].
+  - subst reg. cbn [bind]. unfold reread_extras. rewrite Z.gtb_ltb. destruct rest as [|d rest].
+    + rewrite (proj2 (Z.ltb_ge _ _)) by lia. rewrite (proj2 (Z.ltb_ge _ _)) by lia. now rewrite Hlens.
+    + specialize (Hprest ltac:(discriminate)).
+      rewrite (proj2 (Z.ltb_ge _ _)) by lia. rewrite (proj2 (Z.ltb_lt _ _)) by lia. rewrite Hlens.
+      match goal with |- context [unreg ?x] => replace x with (extras_size (d :: rest)) by lia end. reflexivity.
+  - destruct Hd as (p & Hp & -> & Hdec).
+    assert (std + (extras_size reg + extras_size rest) =? std = false) as ->.
+    { apply Z.eqb_neq. intros He. assert (extras_size reg = 0) as Hz.
+      { destruct rest as [|d rest]; [lia|]. specialize (Hprest ltac:(discriminate)). lia. }
+      pose proof (extras_size_zero reg Hdreg Hz) as ->.
+      assert (rest = []) as -> by (destruct rest as [|d rest]; [reflexivity|specialize (Hprest ltac:(discriminate)); lia]).
+      specialize (Hnone eq_refl eq_refl). discriminate. }
+    cbn [eb_vlr v_data]. rewrite Hdec. cbn [bind]. unfold reread_extras. rewrite Z.gtb_ltb. destruct rest as [|d rest].
+    + rewrite (proj2 (Z.ltb_ge _ _)) by lia. rewrite (proj2 (Z.ltb_ge _ _)) by lia. now rewrite Hlens.
+    + specialize (Hprest ltac:(discriminate)).
+      rewrite (proj2 (Z.ltb_ge _ _)) by lia. rewrite (proj2 (Z.ltb_lt _ _)) by lia. rewrite Hlens.
+      match goal with |- context [unreg ?x] => replace x with (extras_size (d :: rest)) by lia end. reflexivity.
 Qed.
 
-Lemma do_roundtrip_id s : Inv s -> do_roundtrip s = (s, Ok tt).
+Lemma resplit_id s std : InvB s -> std_size (st_fmt s) = Some std ->
+  map (split_rec std (st_extras s)) (map rec_bytes (st_recs s)) = st_recs s.
+Proof.
+  intros [(std' & Hstd' & Hpos & Hrecs) _ _] Hstd. rewrite Hstd in Hstd'. injection Hstd' as <-.
+  rewrite map_map. rewrite <- (map_id (st_recs s)) at 2. apply map_ext_in. intros r Hr. now apply split_rec_bytes, Hrecs.
+Qed.
+
+Lemma write_state_eq s std : std_size (st_fmt s) = Some std ->
+  write_state s = Ok (mkWire (st_fmt s) (std + extras_size (st_extras s)) (st_vlrs s) (map rec_bytes (st_recs s))).
+Proof. intros H. unfold write_state. now rewrite H. Qed.
+
+(* write then read gives back the very state — also for a state read from a file with un-registered trailing bytes *)
+Theorem roundtrip_id s : Inv2 s -> exists w, write_state s = Ok w /\ read_state w = Ok s.
+Proof.
+  intros [HB HV]. pose proof HB as [(std & Hstd & Hpos & Hrecs) Hdims _].
+  eexists. split; [exact (write_state_eq s std Hstd)|]. destruct HV as [HV|(reg & n & Hex & Hn & Hd)].
+  - destruct (vlr_inv_desc _ _ HV) as [Hd Hnone].
+    rewrite (read_prefix s std (st_extras s) [] (st_vlrs s) HB Hstd (eq_sym (app_nil_r _)) Hd (fun H _ => Hnone H)).
+    unfold reread_extras. rewrite (resplit_id s std HB Hstd). now destruct s.
+  - rewrite (read_prefix s std reg [unreg n] (st_vlrs s) HB Hstd Hex Hd) by (intros _ H; discriminate H).
+    unfold reread_extras. rewrite extras_size_unreg by exact Hn. rewrite <- Hex, (resplit_id s std HB Hstd). now destruct s.
+Qed.
+
+Lemma do_roundtrip_id s : Inv2 s -> do_roundtrip s = (s, Ok tt).
 Proof. intros H. destruct (roundtrip_id s H) as (w & Hw & Hr). unfold do_roundtrip. now rewrite Hw, Hr. Qed.
 
-Lemma step_inv s o : Inv s -> op_okb s o = true -> Inv (fst (step s o)).
+(* ---- the truncated re-read ---- *)
+Lemma firstn_skipn_len {A} k (l : list A) : firstn k l ++ skipn (length (firstn k l)) l = l.
 Proof.
-  intros Hinv Hok. destruct o as [ps|names|n vals|vals|ex0 recs0|]; cbn [step].
-  - now apply add_inv.
-  - now apply remove_inv.
-  - now apply assign_inv.
-  - now apply assign_std_inv.
-  - now apply set_points_inv.
-  - now rewrite do_roundtrip_id.
+  rewrite firstn_length. destruct (Nat.min_spec k (length l)) as [[_ ->]|[Hle ->]]; [apply firstn_skipn|].
+  rewrite firstn_all2 by exact Hle. rewrite skipn_all. apply app_nil_r.
 Qed.
 
-Theorem run_inv ops : forall s, Inv s -> ops_okb s ops = true -> Inv (run s ops).
+Lemma kept_skipn keep (reg : list edim) : reread_kept keep reg ++ skipn (length (reread_kept keep reg)) reg = reg.
+Proof. destruct keep as [k|]; cbn [reread_kept]; [apply firstn_skipn_len|reflexivity]. Qed.
+
+Lemma in_firstn_in {A} k : forall (l : list A) x, In x (firstn k l) -> In x l.
+Proof.
+  induction k as [|k IH]; intros [|a l] x H; cbn [firstn] in H; try contradiction.
+  destruct H as [->|H]; [now left|right; now apply IH].
+Qed.
+
+Lemma kept_incl keep (reg : list edim) d : In d (reread_kept keep reg) -> In d reg.
+Proof. destruct keep as [k|]; cbn [reread_kept]; [apply in_firstn_in|contradiction]. Qed.
+
+Lemma filter_eb_trunc_nil keep vl : filter is_eb_vlr vl = [] -> filter is_eb_vlr (trunc_vlrs keep vl) = [].
+Proof.
+  intros H. destruct keep as [k|]; cbn [trunc_vlrs]; [|apply filter_eb_kept]. now rewrite filter_eb_cut, H.
+Qed.
+
+Definition reread_result (s : state) (std : Z) (keep : option Z) (reg rest : list edim) : state :=
+  let kept := reread_kept keep reg in
+  let ex' := reread_extras kept (skipn (length kept) reg ++ rest) in
+  mkSt (st_fmt s) ex' (map (split_rec std ex') (map rec_bytes (st_recs s))) (trunc_vlrs keep (st_vlrs s)).
+
+Lemma reread_general s std reg rest keep :
+  InvB s -> std_size (st_fmt s) = Some std -> st_extras s = reg ++ rest -> vlr_desc reg (st_vlrs s) ->
+  (reg = [] -> rest = [] -> filter is_eb_vlr (st_vlrs s) = []) ->
+  do_reread s keep = (reread_result s std keep reg rest, Ok tt).
+Proof.
+  intros HB Hstd Hex Hd Hnone. unfold do_reread. rewrite (write_state_eq s std Hstd). cbn [w_fmt w_psize w_vlrs w_recs].
+  assert (forallb edim_okb reg = true) as Hreg.
+  { pose proof HB as [_ Hdims _]. rewrite Hex, forallb_app in Hdims. now apply andb_true_iff in Hdims as [H _]. }
+  set (kept := reread_kept keep reg).
+  assert (st_extras s = kept ++ (skipn (length kept) reg ++ rest)) as Hex'.
+  { rewrite app_assoc. unfold kept. now rewrite kept_skipn. }
+  rewrite (read_prefix s std kept (skipn (length kept) reg ++ rest) (trunc_vlrs keep (st_vlrs s)) HB Hstd Hex').
+  - reflexivity.
+  - now apply vlr_desc_trunc.
+  - intros Hk Hr. apply app_eq_nil in Hr as [Hs Hr]. apply filter_eb_trunc_nil. apply Hnone; [|exact Hr].
+    rewrite <- (kept_skipn keep reg). fold kept. now rewrite Hs, Hk.
+Qed.
+
+Lemma NoDup_app_l {A} (a b : list A) : NoDup (a ++ b) -> NoDup a.
+Proof. induction a as [|x a IH]; intros H; [constructor|]. inversion H; subst. constructor; [|now apply IH]. intros Hi. apply H2. apply in_or_app. now left. Qed.
+
+(* the state a truncated read produces satisfies the base invariant, and its VLR describes all but the last dimension *)
+Lemma reread_part_inv s std kept rest' vl' :
+  InvB s -> std_size (st_fmt s) = Some std -> st_extras s = kept ++ rest' -> rest' <> [] ->
+  ~ In UNREG_NAME (extra_names kept) -> mem_name UNREG_NAME (std_names (st_fmt s)) = false -> extras_size rest' <= 255 ->
+  vlr_desc kept vl' ->
+  let ex' := kept ++ [unreg (extras_size rest')] in
+  Inv2 (mkSt (st_fmt s) ex' (map (split_rec std ex') (map rec_bytes (st_recs s))) vl').
+Proof.
+  intros [(std' & Hstd' & Hpos & Hrecs) Hdims [Hnd Hns]] Hstd Hex Hne Hfresh Hnstd H255 Hd ex'.
+  rewrite Hstd in Hstd'. injection Hstd' as <-.
+  rewrite Hex in Hdims, Hnd, Hns. rewrite forallb_app in Hdims. apply andb_true_iff in Hdims as [Hdk Hdr].
+  pose proof (extras_size_pos rest' Hdr Hne) as Hpr.
+  assert (edim_okb (unreg (extras_size rest')) = true) as Hu by (apply edim_ok_unreg; lia).
+  assert (forallb edim_okb ex' = true) as Hall by (unfold ex'; rewrite forallb_app, Hdk; cbn [forallb]; now rewrite Hu).
+  split.
+  - constructor; cbn [st_fmt st_extras st_recs st_vlrs].
+    + exists std. split; [exact Hstd|]. split; [exact Hpos|]. intros r' Hr'. rewrite map_map in Hr'.
+      apply in_map_iff in Hr' as (r & <- & Hr). apply split_rec_wf; [exact Hpos|now apply edims_size_nonneg|].
+      rewrite (rec_wf_len std _ r (Hrecs r Hr)), Hex. unfold ex'. rewrite !extras_size_app, extras_size_unreg by lia. reflexivity.
+    + exact Hall.
+    + unfold ex', extra_names in *. rewrite map_app in *. cbn [map unreg ed_name]. apply nodupb_NoDup in Hnd. split.
+      * apply nodupb_NoDup. apply NoDup_app_intro; [now apply NoDup_app_l in Hnd|repeat constructor; intros []|].
+        intros x Hx [<-|[]]. contradiction.
+      * rewrite forallb_app in *. apply andb_true_iff in Hns as [Hnk _]. rewrite Hnk. cbn [forallb andb]. now rewrite Hnstd.
+  - right. cbn [st_extras st_vlrs]. exists kept, (extras_size rest'). split; [reflexivity|]. split; [lia|exact Hd].
+Qed.
+
+Lemma reread_full_inv s std vl' :
+  InvB s -> std_size (st_fmt s) = Some std -> vlr_desc (st_extras s) vl' -> (st_extras s = [] -> filter is_eb_vlr vl' = []) ->
+  Inv (mkSt (st_fmt s) (st_extras s) (map (split_rec std (st_extras s)) (map rec_bytes (st_recs s))) vl').
+Proof.
+  intros HB Hstd Hd Hnone. rewrite (resplit_id s std HB Hstd). split; [|now apply vlr_desc_inv].
+  destruct HB as [Hf Hdims Hn]. now constructor.
+Qed.
+
+(* a truncated re-read on any reachable state: outcome ok, the result satisfies Inv2, the other VLRs and the format id stay *)
+Lemma skipn_app_le {A} k (a b : list A) : (k <= length a)%nat -> skipn k (a ++ b) = skipn k a ++ b.
+Proof. intros H. rewrite skipn_app. replace (k - length a)%nat with 0%nat by lia. reflexivity. Qed.
+
+Lemma firstn_app_le {A} k (a b : list A) : (k <= length a)%nat -> firstn k (a ++ b) = firstn k a.
+Proof. intros H. rewrite firstn_app. replace (k - length a)%nat with 0%nat by lia. cbn [firstn]. apply app_nil_r. Qed.
+
+Theorem reread_inv2 s keep : Inv2 s -> op_okb s (Reread keep) = true ->
+  Inv2 (fst (do_reread s keep)) /\ snd (do_reread s keep) = Ok tt
+  /\ st_fmt (fst (do_reread s keep)) = st_fmt s
+  /\ st_vlrs (fst (do_reread s keep)) = trunc_vlrs keep (st_vlrs s)
+  /\ map rec_bytes (st_recs (fst (do_reread s keep))) = map rec_bytes (st_recs s)
+  /\ exists std kept tail, std_size (st_fmt s) = Some std /\ st_extras (fst (do_reread s keep)) = kept ++ tail
+       /\ (exists rest', st_extras s = kept ++ rest')
+       /\ (tail = [] \/ exists n, tail = [unreg n])
+       /\ st_recs (fst (do_reread s keep)) = map (split_rec std (kept ++ tail)) (map rec_bytes (st_recs s)).
+Proof.
+  intros [HB HV] Hok. pose proof HB as [(std & Hstd & Hpos & Hrecs) Hdims [Hnd Hns]].
+  assert (forall ex', (forall d, In d ex' -> 0 <= et_size (ed_type d)) -> extras_size ex' = extras_size (st_extras s) ->
+            map rec_bytes (map (split_rec std ex') (map rec_bytes (st_recs s))) = map rec_bytes (st_recs s)) as Hbytes.
+  { intros ex' Hp Hs. rewrite !map_map. apply map_ext_in. intros r Hr.
+    apply split_rec_wf; [exact Hpos|exact Hp|]. rewrite (rec_wf_len std _ r (Hrecs r Hr)). now rewrite Hs. }
+  cbn [op_okb] in Hok. cbn zeta in Hok.
+  destruct HV as [HV|(reg & n & Hex & Hn & Hd)].
+  - (* every dimension was registered *)
+    destruct (vlr_inv_desc _ _ HV) as [Hd Hnone].
+    rewrite (reread_general s std (st_extras s) [] keep HB Hstd (eq_sym (app_nil_r _)) Hd (fun H _ => Hnone H)).
+    unfold reread_result. cbn [fst snd]. rewrite app_nil_r. set (kept := reread_kept keep (st_extras s)) in *.
+    pose proof (kept_skipn keep (st_extras s)) as Hks. fold kept in Hks.
+    destruct (skipn (length kept) (st_extras s)) as [|d rest'] eqn:Esk; unfold reread_extras; cbn [st_fmt st_extras st_recs st_vlrs].
+    + rewrite app_nil_r in Hks. rewrite Hks.
+      assert (vlr_desc (st_extras s) (trunc_vlrs keep (st_vlrs s))) as Hd' by (rewrite <- Hks; now apply vlr_desc_trunc).
+      assert (st_extras s = [] -> filter is_eb_vlr (trunc_vlrs keep (st_vlrs s)) = []) as Hn' by (intros H; now apply filter_eb_trunc_nil, Hnone).
+      split; [apply Inv_2; now apply (reread_full_inv s std)|]. repeat split.
+      * apply Hbytes; [now apply edims_size_nonneg|reflexivity].
+      * exists std, (st_extras s), []. rewrite app_nil_r. repeat split; [exact Hstd|exists []; now rewrite app_nil_r|now left].
+    + assert ((length kept =? length (st_extras s))%nat = false) as Hlen.
+      { apply Nat.eqb_neq. intros He. rewrite He, skipn_all in Esk. discriminate. }
+      rewrite Hlen in Hok. cbn [orb] in Hok. split_andb.
+      match goal with H : negb (mem_name _ (extra_names kept)) = true |- _ => apply negb_true_iff, mem_name_false in H; rename H into Hfresh end.
+      match goal with H : negb (mem_name _ (std_names _)) = true |- _ => apply negb_true_iff in H; rename H into Hnstd end.
+      assert (extras_size (d :: rest') <= 255) as H255 by lia.
+      assert (vlr_desc kept (trunc_vlrs keep (st_vlrs s))) as Hd' by (now apply vlr_desc_trunc).
+      pose proof (reread_part_inv s std kept (d :: rest') _ HB Hstd (eq_sym Hks) ltac:(discriminate) Hfresh Hnstd H255 Hd') as Hres.
+      cbn zeta in Hres. split; [exact Hres|]. destruct Hres as [HB' _]. repeat split.
+      * apply Hbytes; [apply edims_size_nonneg; now destruct HB'|].
+        rewrite <- Hks. rewrite !extras_size_app, extras_size_unreg; [reflexivity|].
+        assert (forallb edim_okb (d :: rest') = true) as Hdr by (rewrite <- Hks, forallb_app in Hdims; now apply andb_true_iff in Hdims as [_ H]).
+        pose proof (extras_size_pos _ Hdr ltac:(discriminate)). lia.
+      * exists std, kept, [unreg (extras_size (d :: rest'))]. repeat split; [exact Hstd|now exists (d :: rest')|right; eauto].
+  - (* the state already has un-registered trailing bytes *)
+    rewrite (reread_general s std reg [unreg n] keep HB Hstd Hex Hd) by (intros _ H; discriminate H).
+    unfold reread_result. cbn [fst snd]. set (kept := reread_kept keep reg) in *.
+    pose proof (kept_skipn keep reg) as Hks. fold kept in Hks.
+    set (rest' := skipn (length kept) reg ++ [unreg n]).
+    assert (st_extras s = kept ++ rest') as Hex' by (unfold rest'; rewrite app_assoc, Hks; exact Hex).
+    assert (rest' <> []) as Hne by (unfold rest'; intros H; apply app_eq_nil in H as [_ H]; discriminate).
+    unfold reread_extras. destruct rest' as [|d0 r0] eqn:Er; [congruence|]. rewrite <- Er in *. clear d0 r0 Er.
+    cbn [st_fmt st_extras st_recs st_vlrs].
+    assert (forallb edim_okb reg = true /\ edim_okb (unreg n) = true) as [Hdreg Hdu].
+    { rewrite Hex, forallb_app in Hdims. apply andb_true_iff in Hdims as [H1 H2]. cbn [forallb] in H2. now rewrite andb_true_r in H2. }
+    assert (In UNREG_NAME (extra_names (st_extras s))) as Huin.
+    { rewrite Hex. unfold extra_names. rewrite map_app. apply in_or_app. right. now left. }
+    assert (mem_name UNREG_NAME (std_names (st_fmt s)) = false) as Hnstd.
+    { pose proof (proj1 (forallb_forall _ _) Hns _ Huin) as H. now apply negb_true_iff in H. }
+    assert (~ In UNREG_NAME (extra_names reg)) as Hnreg.
+    { apply nodupb_NoDup in Hnd. rewrite Hex in Hnd. unfold extra_names in Hnd. rewrite map_app in Hnd. cbn [map unreg ed_name] in Hnd.
+      apply NoDup_remove_2 in Hnd. rewrite app_nil_r in Hnd. exact Hnd. }
+    assert (~ In UNREG_NAME (extra_names kept)) as Hfresh.
+    { intros Hi. apply Hnreg. apply in_map_iff in Hi as (d & Hdn & Hdi). apply in_map_iff. exists d. split; [exact Hdn|]. now apply (kept_incl keep). }
+    assert (extras_size rest' <= 255) as H255.
+    { pose proof (edim_ok_unreg_inv n Hn Hdu) as Hn255.
+      destruct keep as [k|]; cbn [reread_kept] in *.
+      - destruct (Nat.le_gt_cases (Z.to_nat k) (length reg)) as [Hle|Hgt].
+        + rewrite Hex in Hok. rewrite (firstn_app_le _ reg [unreg n] Hle) in Hok. fold kept in Hok.
+          assert ((length kept =? length (reg ++ [unreg n]))%nat = false) as Hlen.
+          { apply Nat.eqb_neq. unfold kept. rewrite firstn_length, app_length. cbn [length]. lia. }
+          rewrite Hlen in Hok. cbn [orb] in Hok. split_andb.
+          rewrite skipn_app_le in * by (unfold kept; rewrite firstn_length; lia). unfold rest'. lia.
+        + unfold rest', kept. rewrite firstn_all2 by lia. rewrite skipn_all. cbn [app]. rewrite extras_size_unreg by exact Hn. exact Hn255.
+      - rewrite Hex in Hok. cbn [length] in Hok. rewrite app_length in Hok. cbn [length] in Hok.
+        replace (0 =? length reg + 1)%nat with false in Hok by (symmetry; apply Nat.eqb_neq; lia). cbn [orb skipn] in Hok. split_andb.
+        unfold rest', kept. cbn [length skipn]. lia. }
+    assert (vlr_desc kept (trunc_vlrs keep (st_vlrs s))) as Hd' by (now apply vlr_desc_trunc).
+    pose proof (reread_part_inv s std kept rest' _ HB Hstd Hex' Hne Hfresh Hnstd H255 Hd') as Hres.
+    cbn zeta in Hres. split; [exact Hres|]. destruct Hres as [HB' _]. repeat split.
+    * apply Hbytes; [apply edims_size_nonneg; now destruct HB'|].
+      rewrite Hex'. rewrite !extras_size_app, extras_size_unreg; [reflexivity|].
+      assert (forallb edim_okb rest' = true) as Hdr by (rewrite Hex', forallb_app in Hdims; now apply andb_true_iff in Hdims as [_ H]).
+      pose proof (extras_size_pos _ Hdr Hne). lia.
+    * exists std, kept, [unreg (extras_size rest')]. repeat split; [exact Hstd|now exists rest'|right; eauto].
+Qed.
+
+(* ------------------------------------------------------------------------------------ *)
+(* every operation preserves the invariants                                              *)
+(* ------------------------------------------------------------------------------------ *)
+Theorem step_inv2 s o : Inv2 s -> op_okb s o = true -> Inv2 (fst (step s o)).
+Proof.
+  intros Hinv Hok. pose proof (Inv2_B s Hinv) as HB.
+  destruct o as [ps|names|n vals|vals|ex0 recs0| |g stds|keep]; cbn [step].
+  - destruct (forallb edim_okb ps) eqn:E; [|now rewrite add_refused]. apply Inv_2. now apply add_inv.
+  - destruct (remove_okb s names) eqn:E; [|now rewrite remove_refused]. apply Inv_2. now apply remove_inv.
+  - destruct (assign_shape s n vals HB) as (recs' & -> & Hwf). now apply Inv2_recs.
+  - destruct (assign_std_shape s vals HB) as (recs' & -> & Hwf). now apply Inv2_recs.
+  - destruct (set_points_shape s ex0 recs0 HB) as (recs' & -> & Hwf). now apply Inv2_recs.
+  - now rewrite do_roundtrip_id.
+  - destruct (convert_okb s g stds) eqn:E; [apply Inv_2; now apply convert_inv|].
+    destruct (convert_refused s g stds E) as [-> _]. exact Hinv.
+  - now apply reread_inv2.
+Qed.
+
+(* an add, a remove or a conversion that succeeds re-establishes the full invariant, whatever the VLR was before *)
+Theorem step_sync_inv s o : Inv2 s -> op_okb s o = true -> op_syncs o = true -> snd (step s o) = Ok tt -> Inv (fst (step s o)).
+Proof.
+  intros Hinv Hok Hs Hr. pose proof (Inv2_B s Hinv) as HB.
+  destruct o as [ps|names|n vals|vals|ex0 recs0| |g stds|keep]; cbn [step op_syncs] in *; try discriminate.
+  - destruct (forallb edim_okb ps) eqn:E; [now apply add_inv|]. rewrite add_refused in Hr by exact E. discriminate.
+  - destruct (remove_okb s names) eqn:E; [now apply remove_inv|]. rewrite remove_refused in Hr by exact E. discriminate.
+  - destruct (convert_okb s g stds) eqn:E; [now apply convert_inv|]. destruct (convert_refused s g stds E) as [_ H]. contradiction.
+Qed.
+
+(* without truncated re-reads the full invariant is kept by every step *)
+Theorem step_inv s o : Inv s -> op_okb s o = true -> op_rereads o = false -> Inv (fst (step s o)).
+Proof.
+  intros Hinv Hok Hnr. pose proof (Inv_B s Hinv) as HB.
+  destruct o as [ps|names|n vals|vals|ex0 recs0| |g stds|keep]; cbn [step op_rereads] in *; try discriminate.
+  - destruct (forallb edim_okb ps) eqn:E; [|now rewrite add_refused]. now apply add_inv.
+  - destruct (remove_okb s names) eqn:E; [|now rewrite remove_refused]. now apply remove_inv.
+  - destruct (assign_shape s n vals HB) as (recs' & -> & Hwf). now apply Inv_recs.
+  - destruct (assign_std_shape s vals HB) as (recs' & -> & Hwf). now apply Inv_recs.
+  - destruct (set_points_shape s ex0 recs0 HB) as (recs' & -> & Hwf). now apply Inv_recs.
+  - rewrite do_roundtrip_id; [exact Hinv|now apply Inv_2].
+  - destruct (convert_okb s g stds) eqn:E; [now apply convert_inv|].
+    destruct (convert_refused s g stds E) as [-> _]. exact Hinv.
+Qed.
+
+Lemma run_cons s o ops : run s (o :: ops) = run (fst (step s o)) ops.
+Proof. reflexivity. Qed.
+
+Lemma run_app s a b : run s (a ++ b) = run (run s a) b.
+Proof. unfold run. apply fold_left_app. Qed.
+
+Lemma ops_okb_app a : forall s b, ops_okb s (a ++ b) = ops_okb s a && ops_okb (run s a) b.
+Proof.
+  induction a as [|o a IH]; intros s b; [reflexivity|]. cbn [app ops_okb]. rewrite IH, run_cons. now rewrite andb_assoc.
+Qed.
+
+Theorem run_inv2 ops : forall s, Inv2 s -> ops_okb s ops = true -> Inv2 (run s ops).
 Proof.
   induction ops as [|o ops IH]; intros s Hinv Hok; [exact Hinv|].
-  cbn [ops_okb] in Hok. apply andb_true_iff in Hok as [Ho Hr]. unfold run. cbn [fold_left].
-  apply IH; [now apply step_inv|exact Hr].
+  cbn [ops_okb] in Hok. apply andb_true_iff in Hok as [Ho Hr]. rewrite run_cons.
+  apply IH; [now apply step_inv2|exact Hr].
+Qed.
+
+Theorem run_inv ops : forall s, Inv s -> ops_okb s ops = true -> (forall o, In o ops -> op_rereads o = false) -> Inv (run s ops).
+Proof.
+  induction ops as [|o ops IH]; intros s Hinv Hok Hnr; [exact Hinv|].
+  cbn [ops_okb] in Hok. apply andb_true_iff in Hok as [Ho Hr]. rewrite run_cons.
+  apply IH; [apply step_inv; [exact Hinv|exact Ho|apply Hnr; now left]|exact Hr|intros o' Ho'; apply Hnr; now right].
+Qed.
+
+(* whatever came before — truncated re-reads included —, after a successful add / remove / conversion (I3) holds again *)
+Theorem run_sync_inv s ops o : Inv2 s -> ops_okb s (ops ++ [o]) = true -> op_syncs o = true ->
+  snd (step (run s ops) o) = Ok tt -> Inv (run s (ops ++ [o])).
+Proof.
+  intros Hinv Hok Hs Hr. rewrite ops_okb_app in Hok. apply andb_true_iff in Hok as [Ha Ho].
+  cbn [ops_okb] in Ho. rewrite andb_true_r in Ho. rewrite run_app. cbn [run fold_left].
+  apply step_sync_inv; [now apply run_inv2|exact Ho|exact Hs|exact Hr].
 Qed.
 
 Theorem init_inv fmt stds vl std : std_size fmt = Some std -> 0 <= std ->
   (forall b, In b stds -> len b = std) -> filter is_eb_vlr vl = [] -> Inv (init fmt stds vl).
 Proof.
-  intros Hstd Hpos Hb Hv. constructor; cbn [init st_fmt st_extras st_recs st_vlrs].
+  intros Hstd Hpos Hb Hv. split; [constructor|]; cbn [init st_fmt st_extras st_recs st_vlrs].
   - exists std. split; [exact Hstd|]. split; [exact Hpos|]. intros r Hr. apply in_map_iff in Hr as (b & <- & Hin).
     repeat split. cbn [fst]. now apply Hb.
   - reflexivity.
@@ -751,12 +1251,40 @@ Proof.
   - exact Hv.
 Qed.
 
+(* a LasData made from a PointFormat that already carries extra dimensions starts with the invariant: the VLR is there *)
+Theorem init_ex_inv fmt ex recs vl eb_last std : std_size fmt = Some std ->
+  forallb edim_okb ex = true -> nodupb (extra_names ex) = true ->
+  forallb (fun n => negb (mem_name n (std_names fmt))) (extra_names ex) = true ->
+  (forall b, In b recs -> len b = std + extras_size ex) -> filter is_eb_vlr vl = [] ->
+  exists s, init_ex fmt ex recs vl eb_last = Ok s /\ Inv s /\ st_fmt s = fmt /\ st_extras s = ex
+            /\ map rec_bytes (st_recs s) = recs /\ filter not_eb (st_vlrs s) = vl.
+Proof.
+  intros Hstd Hdims Hnd Hns Hlen Hv. unfold init_ex. rewrite Hstd. pose proof (std_size_nonneg _ _ Hstd) as Hpos.
+  destruct (payload_roundtrip ex Hdims) as (p & Hp & Hl & Hdec). rewrite Hp. cbn [bind]. eexists. split; [reflexivity|].
+  pose proof (is_eb_eb_vlr p (payload_mod _ _ Hdims Hp)) as Heb.
+  assert (forall b, In b recs -> rec_wf std ex (split_rec std ex b) /\ rec_bytes (split_rec std ex b) = b) as Hsp.
+  { intros b Hb. apply split_rec_wf; [exact Hpos|now apply edims_size_nonneg|now apply Hlen]. }
+  cbn [st_fmt st_extras st_recs st_vlrs]. split; [split; [constructor|]|]; cbn [st_fmt st_extras st_recs st_vlrs].
+  - exists std. split; [exact Hstd|]. split; [exact Hpos|]. intros r Hr. apply in_map_iff in Hr as (b & <- & Hb). now apply Hsp.
+  - exact Hdims.
+  - now split.
+  - unfold vlr_inv. destruct ex as [|d ex].
+    + destruct eb_last; [now rewrite app_nil_r|exact Hv].
+    + exists p. split; [exact Hp|]. split; [|apply Hdec; rewrite Hl, EB_val; lia].
+      destruct eb_last; rewrite filter_app, Hv; cbn [filter app]; rewrite Heb; [reflexivity|now rewrite app_nil_r].
+  - repeat split.
+    + rewrite map_map. rewrite <- (map_id recs) at 2. apply map_ext_in. intros b Hb. now apply Hsp.
+    + pose proof (filter_not_eb_id vl Hv) as Hk. destruct ex as [|d ex]; destruct eb_last; rewrite ?app_nil_r; cbn [app]; try exact Hk.
+      * rewrite filter_app, Hk. cbn [filter]. unfold not_eb at 1. rewrite Heb. cbn [negb]. apply app_nil_r.
+      * cbn [filter]. unfold not_eb at 1. rewrite Heb. cbn [negb]. exact Hk.
+Qed.
+
 (* ------------------------------------------------------------------------------------ *)
 (* (I1) dimensions an operation does not name keep their raw bytes in every record        *)
 (* ------------------------------------------------------------------------------------ *)
 Lemma failed_step_unchanged s o : snd (step s o) <> Ok tt -> fst (step s o) = s.
 Proof.
-  destruct o as [ps|names|n vals|vals|ex0 recs0|]; cbn [step].
+  destruct o as [ps|names|n vals|vals|ex0 recs0| |g stds|keep]; cbn [step].
   - unfold do_add. destruct (negb _); [reflexivity|]. destruct (sync_vlrs _ _); cbn [fst snd]; [congruence|reflexivity].
   - unfold do_remove. destruct (negb _); [reflexivity|]. destruct (sync_vlrs _ _); cbn [fst snd]; [congruence|reflexivity].
   - unfold do_assign. destruct (find_dim _ _); [|reflexivity]. destruct (_ && _); cbn [fst snd]; [congruence|reflexivity].
@@ -764,12 +1292,19 @@ Proof.
   - unfold do_set_points. destruct (std_size _); [|reflexivity]. destruct (negb _); [reflexivity|].
     destruct (negb _); cbn [fst snd]; [reflexivity|congruence].
   - unfold do_roundtrip. destruct (write_state s); [|reflexivity]. destruct (read_state _); cbn [fst snd]; [congruence|reflexivity].
+  - unfold do_convert. destruct (std_size _); [|reflexivity]. destruct (_ && _); [|reflexivity].
+    destruct (sync_vlrs _ _); cbn [fst snd]; [congruence|reflexivity].
+  - unfold do_reread. destruct (write_state s); [|reflexivity]. destruct (read_state _); cbn [fst snd]; [congruence|reflexivity].
 Qed.
 
-Lemma std_bytes_step s o : Inv s -> op_touches_std o = false ->
+Lemma fst_split_rec std ex r : len (fst r) = std -> fst (split_rec std ex (rec_bytes r)) = fst r.
+Proof. intros <-. unfold split_rec, rec_bytes. cbn [fst]. apply take_app_exact. Qed.
+
+Lemma std_bytes_step s o : Inv2 s -> op_okb s o = true -> op_touches_std o = false ->
   map fst (st_recs (fst (step s o))) = map fst (st_recs s).
 Proof.
-  intros Hinv Ht. destruct o as [ps|names|n vals|vals|ex0 recs0|]; cbn [step]; try discriminate.
+  intros Hinv Hok Ht. pose proof (Inv2_B s Hinv) as HB.
+  destruct o as [ps|names|n vals|vals|ex0 recs0| |g stds|keep]; cbn [step]; try discriminate.
   - unfold do_add. destruct (negb _); [reflexivity|]. destruct (sync_vlrs _ _); [|reflexivity].
     cbn [fst st_recs]. rewrite map_map. reflexivity.
   - unfold do_remove. destruct (negb _); [reflexivity|]. destruct (sync_vlrs _ _); [|reflexivity].
@@ -778,6 +1313,9 @@ Proof.
     apply andb_true_iff in Ec as [Hl _]. apply Nat.eqb_eq in Hl. cbn [fst st_recs]. rewrite map_map.
     rewrite <- (map_snd_combine vals (st_recs s) Hl) at 2. rewrite map_map. apply map_ext. now intros [v r].
   - now rewrite do_roundtrip_id.
+  - destruct (reread_inv2 s keep Hinv Hok) as (_ & _ & _ & _ & _ & std & kept & tail & Hstd & _ & _ & _ & ->).
+    rewrite !map_map. apply map_ext_in. intros r Hr. apply fst_split_rec.
+    destruct HB as [(std' & Hstd' & _ & Hrecs) _ _]. rewrite Hstd in Hstd'. injection Hstd' as <-. now apply Hrecs.
 Qed.
 
 Lemma lookup_set_other n n0 v m : n <> n0 ->
@@ -798,56 +1336,125 @@ Proof.
   destruct (lookup_present_name ex (snd r) n Hm Hnd Hin) as (b & Hb). rewrite Hb. now apply lookup_realloc.
 Qed.
 
-Theorem step_frame s o n : Inv s -> In n (extra_names (st_extras s)) -> ~ In n (op_names o) ->
-  In n (extra_names (st_extras (fst (step s o))))
-  /\ map (field_of n) (st_recs (fst (step s o))) = map (field_of n) (st_recs s).
+(* cutting the bytes of a record by a format that starts with the same dimensions gives these dimensions the same bytes *)
+Lemma split_fields_prefix_lookup kept : forall tail rest' m n, entries_wf (kept ++ rest') m -> In n (extra_names kept) ->
+  lookup n (split_fields (kept ++ tail) (concat (map snd m))) = lookup n m.
 Proof.
-  intros Hinv Hin Hnot. pose proof Hinv as [(std & Hstd & Hpos & Hrecs) Hdims [Hnd Hns] Hvlr].
+  induction kept as [|d kept IH]; intros tail rest' m n Hwf Hin; [contradiction|].
+  cbn [app] in Hwf. destruct (entries_wf_cons_inv _ _ _ Hwf) as ([k v] & m' & ->).
+  apply entries_wf_cons in Hwf as (Hk & Hs & Hm). cbn [fst snd] in *. subst k.
+  cbn [app map concat split_fields].
+  assert (length v = Z.to_nat (et_size (ed_type d))) as Hl by (unfold len in Hs; lia).
+  rewrite (firstn_app_exact v _ _ Hl), (skipn_app_exact v _ _ Hl). cbn [lookup].
+  destruct (name_eqb (ed_name d) n) eqn:E; [reflexivity|].
+  apply (IH tail rest'); [exact Hm|]. destruct Hin as [Hin|Hin]; [|exact Hin]. cbn in Hin. rewrite Hin, name_eqb_refl in E. discriminate.
+Qed.
+
+Lemma split_rec_prefix_field std kept tail rest' r n : rec_wf std (kept ++ rest') r -> In n (extra_names kept) ->
+  field_of n (split_rec std (kept ++ tail) (rec_bytes r)) = field_of n r.
+Proof.
+  intros Hwf Hin. apply rec_wf_entries in Hwf as [Hs Hm]. unfold field_of, split_rec, rec_bytes. cbn [snd]. rewrite <- Hs.
+  rewrite drop_app_exact. now apply (split_fields_prefix_lookup kept tail rest').
+Qed.
+
+Theorem step_frame s o n : Inv2 s -> op_okb s o = true -> In n (extra_names (st_extras s)) -> ~ In n (op_names o) ->
+  (In n (extra_names (st_extras (fst (step s o)))) ->
+   map (field_of n) (st_recs (fst (step s o))) = map (field_of n) (st_recs s))
+  /\ (op_rereads o = false -> In n (extra_names (st_extras (fst (step s o))))).
+Proof.
+  intros Hinv Hok Hin Hnot. pose proof (Inv2_B s Hinv) as HB. pose proof HB as [(std & Hstd & Hpos & Hrecs) Hdims [Hnd Hns]].
   apply nodupb_NoDup in Hnd.
-  destruct o as [ps|names|n0 vals|vals|ex0 recs0|]; cbn [step op_names] in *.
+  destruct o as [ps|names|n0 vals|vals|ex0 recs0| |g stds|keep]; cbn [step op_names op_rereads] in *.
   - unfold do_add. destruct (negb _); [now split|]. destruct (sync_vlrs _ _); [|now split]. cbn [fst st_extras st_recs].
     assert (In n (extra_names (st_extras s ++ ps))) as Hin' by (unfold extra_names; rewrite map_app; apply in_or_app; now left).
-    split; [exact Hin'|]. now apply (frame_realloc std (st_extras s)).
+    split; [intros _|now intros _]. now apply (frame_realloc std (st_extras s)).
   - unfold do_remove. destruct (negb _); [now split|]. destruct (sync_vlrs _ _); [|now split]. cbn [fst st_extras st_recs].
     assert (In n (extra_names (filter (fun d => negb (mem_name (ed_name d) names)) (st_extras s)))) as Hin'.
     { apply in_map_iff in Hin as (d & <- & Hd). apply in_map. apply filter_In. split; [exact Hd|].
       apply negb_true_iff. now apply mem_name_false. }
-    split; [exact Hin'|]. now apply (frame_realloc std (st_extras s)).
+    split; [intros _|now intros _]. now apply (frame_realloc std (st_extras s)).
   - unfold do_assign. destruct (find_dim _ _); [|now split]. destruct (_ && _) eqn:Ec; [|now split].
-    apply andb_true_iff in Ec as [Hl _]. apply Nat.eqb_eq in Hl. cbn [fst st_extras st_recs]. split; [exact Hin|].
+    apply andb_true_iff in Ec as [Hl _]. apply Nat.eqb_eq in Hl. cbn [fst st_extras st_recs]. split; [intros _|now intros _].
     rewrite map_map. rewrite <- (map_snd_combine vals (st_recs s) Hl) at 2. rewrite map_map. apply map_ext. intros [v r].
     unfold field_of, set_field. cbn [fst snd]. apply lookup_set_other. intros ->. apply Hnot. now left.
   - unfold do_assign_std. destruct (std_size _); [|now split]. destruct (_ && _) eqn:Ec; [|now split].
-    apply andb_true_iff in Ec as [Hl _]. apply Nat.eqb_eq in Hl. cbn [fst st_extras st_recs]. split; [exact Hin|].
+    apply andb_true_iff in Ec as [Hl _]. apply Nat.eqb_eq in Hl. cbn [fst st_extras st_recs]. split; [intros _|now intros _].
     rewrite map_map. rewrite <- (map_snd_combine vals (st_recs s) Hl) at 2. rewrite map_map. apply map_ext. now intros [v r].
   - unfold do_set_points. destruct (std_size _); [|now split]. destruct (negb _); [now split|].
     destruct (fmt_eqv ex0 (st_extras s)) eqn:Eeq; cbn [negb]; [|now split].
     exfalso. apply Hnot. now rewrite (fmt_eqv_names _ _ Eeq).
   - rewrite do_roundtrip_id by exact Hinv. now split.
+  - unfold do_convert. destruct (std_size g); [|now split]. destruct (_ && _) eqn:Ec; [|now split].
+    destruct (sync_vlrs _ _); [|now split].
+    apply andb_true_iff in Ec as [Hl _]. apply Nat.eqb_eq in Hl. cbn [fst st_extras st_recs]. split; [intros _|now intros _].
+    rewrite map_map. rewrite <- (map_snd_combine stds (st_recs s) Hl) at 2. rewrite map_map. apply map_ext. now intros [v r].
+  - split; [|discriminate]. intros Hin'.
+    destruct (reread_inv2 s keep Hinv Hok) as (_ & _ & _ & _ & _ & std' & kept & tail & Hstd' & Hex' & (rest' & Hex) & Htail & ->).
+    rewrite Hstd in Hstd'. injection Hstd' as <-. rewrite Hex' in Hin'.
+    assert (In n (extra_names kept)) as Hk.
+    { unfold extra_names in Hin'. rewrite map_app in Hin'. apply in_app_or in Hin' as [H|H]; [exact H|].
+      destruct Htail as [->|(m & ->)]; [contradiction|]. cbn in H. destruct H as [H|[]]. exfalso. apply Hnot. now left. }
+    rewrite !map_map. apply map_ext_in. intros r Hr. apply (split_rec_prefix_field std kept tail rest'); [|exact Hk].
+    rewrite <- Hex. now apply Hrecs.
 Qed.
 
-Theorem run_frame ops : forall s n, Inv s -> ops_okb s ops = true -> In n (extra_names (st_extras s)) ->
+(* a name that is not an extra dimension does not become one unless an operation names it *)
+Lemma step_no_new s o n : Inv2 s -> op_okb s o = true -> ~ In n (extra_names (st_extras s)) -> ~ In n (op_names o) ->
+  ~ In n (extra_names (st_extras (fst (step s o)))).
+Proof.
+  intros Hinv Hok Hnin Hnot. pose proof (Inv2_B s Hinv) as HB.
+  destruct o as [ps|names|n0 vals|vals|ex0 recs0| |g stds|keep]; cbn [step op_names] in *.
+  - unfold do_add. destruct (negb _); [exact Hnin|]. destruct (sync_vlrs _ _); [|exact Hnin]. cbn [fst st_extras].
+    unfold extra_names. rewrite map_app. intros H. apply in_app_or in H as [H|H]; contradiction.
+  - unfold do_remove. destruct (negb _); [exact Hnin|]. destruct (sync_vlrs _ _); [|exact Hnin]. cbn [fst st_extras].
+    intros H. apply Hnin. apply in_map_iff in H as (d & <- & Hd). apply filter_In in Hd as [Hd _]. now apply in_map.
+  - destruct (assign_shape s n0 vals HB) as (recs' & -> & _). exact Hnin.
+  - destruct (assign_std_shape s vals HB) as (recs' & -> & _). exact Hnin.
+  - destruct (set_points_shape s ex0 recs0 HB) as (recs' & -> & _). exact Hnin.
+  - now rewrite do_roundtrip_id.
+  - unfold do_convert. destruct (std_size g); [|exact Hnin]. destruct (_ && _); [|exact Hnin]. now destruct (sync_vlrs _ _).
+  - destruct (reread_inv2 s keep Hinv Hok) as (_ & _ & _ & _ & _ & std' & kept & tail & _ & -> & (rest' & Hex) & Htail & _).
+    unfold extra_names. rewrite map_app. intros H. apply in_app_or in H as [H|H].
+    + apply Hnin. rewrite Hex. unfold extra_names. rewrite map_app. apply in_or_app. now left.
+    + destruct Htail as [->|(m & ->)]; [contradiction|]. cbn in H. destruct H as [H|[]]. apply Hnot. now left.
+Qed.
+
+Lemma run_no_new ops : forall s n, Inv2 s -> ops_okb s ops = true -> ~ In n (extra_names (st_extras s)) ->
+  (forall o, In o ops -> ~ In n (op_names o)) -> ~ In n (extra_names (st_extras (run s ops))).
+Proof.
+  induction ops as [|o ops IH]; intros s n Hinv Hok Hnin Hnot; [exact Hnin|].
+  cbn [ops_okb] in Hok. apply andb_true_iff in Hok as [Ho Hr]. rewrite run_cons.
+  apply IH; [now apply step_inv2|exact Hr| |intros o' Ho'; apply Hnot; now right].
+  apply step_no_new; [exact Hinv|exact Ho|exact Hnin|apply Hnot; now left].
+Qed.
+
+Theorem run_frame ops : forall s n, Inv2 s -> ops_okb s ops = true -> In n (extra_names (st_extras s)) ->
   (forall o, In o ops -> ~ In n (op_names o)) ->
-  In n (extra_names (st_extras (run s ops)))
-  /\ map (field_of n) (st_recs (run s ops)) = map (field_of n) (st_recs s).
+  (In n (extra_names (st_extras (run s ops))) -> map (field_of n) (st_recs (run s ops)) = map (field_of n) (st_recs s))
+  /\ ((forall o, In o ops -> op_rereads o = false) -> In n (extra_names (st_extras (run s ops)))).
 Proof.
   induction ops as [|o ops IH]; intros s n Hinv Hok Hin Hnot; [now split|].
-  cbn [ops_okb] in Hok. apply andb_true_iff in Hok as [Ho Hr]. unfold run. cbn [fold_left]. fold (run (fst (step s o)) ops).
-  destruct (step_frame s o n Hinv Hin (Hnot o (or_introl eq_refl))) as [Hin' Heq].
-  destruct (IH (fst (step s o)) n (step_inv _ _ Hinv Ho) Hr Hin' (fun o' Ho' => Hnot o' (or_intror Ho'))) as [Hin'' Heq'].
-  split; [exact Hin''|]. now rewrite Heq'.
+  cbn [ops_okb] in Hok. apply andb_true_iff in Hok as [Ho Hr]. rewrite run_cons.
+  destruct (step_frame s o n Hinv Ho Hin (Hnot o (or_introl eq_refl))) as [Hval Hstay].
+  pose proof (step_inv2 _ _ Hinv Ho) as Hinv'.
+  destruct (mem_name n (extra_names (st_extras (fst (step s o))))) eqn:Em.
+  - apply mem_name_In in Em.
+    destruct (IH (fst (step s o)) n Hinv' Hr Em (fun o' Ho' => Hnot o' (or_intror Ho'))) as [Hval' Hstay'].
+    split; [intros Hf; rewrite (Hval' Hf); now apply Hval|]. intros Hnr. apply Hstay'. intros o' Ho'. apply Hnr. now right.
+  - apply mem_name_false in Em. split.
+    + intros Hf. exfalso. revert Hf. apply run_no_new; [exact Hinv'|exact Hr|exact Em|intros o' Ho'; apply Hnot; now right].
+    + intros Hnr. exfalso. apply Em. apply Hstay. apply Hnr. now left.
 Qed.
 
-Theorem run_std_bytes ops : forall s, Inv s -> ops_okb s ops = true ->
+Theorem run_std_bytes ops : forall s, Inv2 s -> ops_okb s ops = true ->
   (forall o, In o ops -> op_touches_std o = false) ->
   map fst (st_recs (run s ops)) = map fst (st_recs s).
 Proof.
   induction ops as [|o ops IH]; intros s Hinv Hok Hnot; [reflexivity|].
-  cbn [ops_okb] in Hok. apply andb_true_iff in Hok as [Ho Hr]. unfold run. cbn [fold_left]. fold (run (fst (step s o)) ops).
-  rewrite IH; [|now apply step_inv|exact Hr|intros o' Ho'; apply Hnot; now right].
-  apply std_bytes_step; [exact Hinv|apply Hnot; now left].
+  cbn [ops_okb] in Hok. apply andb_true_iff in Hok as [Ho Hr]. rewrite run_cons.
+  rewrite IH; [|now apply step_inv2|exact Hr|intros o' Ho'; apply Hnot; now right].
+  apply std_bytes_step; [exact Hinv|exact Ho|apply Hnot; now left].
 Qed.
-
 (* an accepted assignment is what is read back *)
 Lemma lookup_set_same n v : forall m, (exists b, lookup n m = Some b) ->
   lookup n (map (fun kv : list Z * list Z => if name_eqb (fst kv) n then (fst kv, v) else kv) m) = Some v.
@@ -856,10 +1463,10 @@ Proof.
   destruct (name_eqb k n) eqn:E; cbn [lookup]; rewrite E; [reflexivity|]. apply IH. eauto.
 Qed.
 
-Theorem assign_reads_back s n vals : Inv s -> snd (step s (Assign n vals)) = Ok tt ->
+Theorem assign_reads_back s n vals : Inv2 s -> snd (step s (Assign n vals)) = Ok tt ->
   map (field_of n) (st_recs (fst (step s (Assign n vals)))) = map Some vals.
 Proof.
-  intros Hinv. pose proof Hinv as [(std & Hstd & Hpos & Hrecs) Hdims [Hnd Hns] Hvlr]. apply nodupb_NoDup in Hnd.
+  intros [[(std & Hstd & Hpos & Hrecs) Hdims [Hnd Hns]] _]. apply nodupb_NoDup in Hnd.
   cbn [step]. unfold do_assign. destruct (find_dim _ _) as [d|] eqn:Ef; [|discriminate].
   destruct (_ && _) eqn:Ec; [|discriminate]. intros _. cbn [fst st_recs].
   apply andb_true_iff in Ec as [Hl _]. apply Nat.eqb_eq in Hl. destruct (find_dim_some _ _ _ Ef) as [Hd Hdn].
@@ -878,58 +1485,135 @@ Theorem remove_bad s names :
   (exists n, In n names /\ ~ In n (extra_names (st_extras s))) \/ ~ NoDup names ->
   step s (Remove names) = (s, Err ELaspy).
 Proof.
-  intros H. cbn [step]. unfold do_remove.
-  replace (forallb (fun n => mem_name n (extra_names (st_extras s))) names && nodupb names) with false; [reflexivity|].
-  symmetry. apply andb_false_iff. destruct H as [(n & Hn & Hnot)|Hd].
+  intros H. cbn [step]. apply remove_refused. unfold remove_okb.
+  apply andb_false_iff. destruct H as [(n & Hn & Hnot)|Hd].
   - left. destruct (forallb _ names) eqn:E; [|reflexivity].
     pose proof (proj1 (forallb_forall _ _) E n Hn) as Hm. apply mem_name_In in Hm. contradiction.
   - right. destruct (nodupb names) eqn:E; [|reflexivity]. apply nodupb_NoDup in E. contradiction.
 Qed.
 
-Theorem remove_standard s names n : Inv s -> In n (std_names (st_fmt s)) -> In n names ->
+Theorem remove_standard s names n : Inv2 s -> In n (std_names (st_fmt s)) -> In n names ->
   step s (Remove names) = (s, Err ELaspy).
 Proof.
-  intros [_ _ [_ Hns] _] Hstd Hin. apply remove_bad. left. exists n. split; [exact Hin|]. intros Hex.
+  intros [[_ _ [_ Hns]] _] Hstd Hin. apply remove_bad. left. exists n. split; [exact Hin|]. intros Hex.
   pose proof (proj1 (forallb_forall _ _) Hns n Hex) as Hf. apply negb_true_iff in Hf. apply mem_name_false in Hf. contradiction.
 Qed.
 
 (* an accepted removal removes exactly the named dimensions, in order *)
-Theorem remove_ok s names : Inv s -> (forall n, In n names -> In n (extra_names (st_extras s))) -> NoDup names ->
+Theorem remove_ok s names : Inv2 s -> (forall n, In n names -> In n (extra_names (st_extras s))) -> NoDup names ->
   snd (step s (Remove names)) = Ok tt
-  /\ st_extras (fst (step s (Remove names))) = filter (fun d => negb (mem_name (ed_name d) names)) (st_extras s).
+  /\ st_extras (fst (step s (Remove names))) = filter (fun d => negb (mem_name (ed_name d) names)) (st_extras s)
+  /\ Inv (fst (step s (Remove names))).
 Proof.
-  intros Hinv Hall Hnd. pose proof Hinv as [_ Hdims _ _]. cbn [step]. unfold do_remove.
-  replace (forallb (fun n => mem_name n (extra_names (st_extras s))) names && nodupb names) with true.
-  - cbn [negb]. set (ex' := filter _ (st_extras s)).
-    destruct (sync_inv ex' (st_vlrs s) (forallb_filter _ _ _ Hdims)) as (vl' & -> & _). now split.
-  - symmetry. apply andb_true_iff. split; [|now apply nodupb_NoDup].
-    apply forallb_forall. intros n Hn. apply mem_name_In. now apply Hall.
+  intros Hinv Hall Hnd. cbn [step].
+  assert (remove_okb s names = true) as Hok.
+  { unfold remove_okb. apply andb_true_iff. split; [|now apply nodupb_NoDup].
+    apply forallb_forall. intros n Hn. apply mem_name_In. now apply Hall. }
+  destruct (remove_inv s names (Inv2_B s Hinv) Hok) as (Hi & Hr & He & _). split; [exact Hr|]. split; [exact He|exact Hi].
 Qed.
 
 (* an accepted addition appends the new dimensions, zero-filled *)
-Theorem add_ok s ps : Inv s -> forallb edim_okb ps = true ->
+Theorem add_ok s ps : Inv2 s -> forallb edim_okb ps = true ->
   snd (step s (Add ps)) = Ok tt /\ st_extras (fst (step s (Add ps))) = st_extras s ++ ps.
 Proof.
-  intros [_ Hdims _ _] Hps. cbn [step]. unfold do_add. rewrite Hps. cbn [negb].
+  intros [[_ Hdims _] _] Hps. cbn [step]. unfold do_add. rewrite Hps. cbn [negb].
   assert (forallb edim_okb (st_extras s ++ ps) = true) as Hall by (rewrite forallb_app, Hdims, Hps; reflexivity).
   destruct (sync_inv _ (st_vlrs s) Hall) as (vl' & -> & _). now split.
 Qed.
 
-(* the VLRs that are not the extra-bytes record are never touched, and keep their order *)
-Theorem other_vlrs_step s o : Inv s -> filter not_eb (st_vlrs (fst (step s o))) = filter not_eb (st_vlrs s).
+Theorem add_ok_inv s ps : Inv2 s -> op_okb s (Add ps) = true -> forallb edim_okb ps = true -> Inv (fst (step s (Add ps))).
+Proof. intros Hinv Hok Hps. now apply add_inv; [apply Inv2_B| |]. Qed.
+
+(* conversion to another point format: the extra dimensions stay what they are (names, types, scales, offsets,
+   descriptions, order), the extra-bytes VLR is rebuilt from them, the other VLRs stay, and (I1)-(I3) hold for the result *)
+Theorem convert_ok s g stds gstd : Inv2 s -> op_okb s (Convert g stds) = true -> std_size g = Some gstd ->
+  length stds = length (st_recs s) -> (forall v, In v stds -> len v = gstd /\ bytes_ok v = true) ->
+  Inv (fst (step s (Convert g stds))) /\ snd (step s (Convert g stds)) = Ok tt
+  /\ st_extras (fst (step s (Convert g stds))) = st_extras s /\ st_fmt (fst (step s (Convert g stds))) = g
+  /\ map fst (st_recs (fst (step s (Convert g stds)))) = stds
+  /\ (forall n, map (field_of n) (st_recs (fst (step s (Convert g stds)))) = map (field_of n) (st_recs s))
+  /\ filter not_eb (st_vlrs (fst (step s (Convert g stds)))) = filter not_eb (st_vlrs s).
 Proof.
-  intros Hinv. pose proof Hinv as [_ Hdims _ _]. destruct o as [ps|names|n vals|vals|ex0 recs0|]; cbn [step].
+  intros Hinv Hok Hg Hlen Hvals. cbn [step].
+  assert (convert_okb s g stds = true) as Hc.
+  { unfold convert_okb. rewrite Hg. apply andb_true_iff. split; [now apply Nat.eqb_eq|].
+    apply forallb_forall. intros v Hv. destruct (Hvals v Hv) as [H1 H2]. rewrite H2, andb_true_r. now apply Z.eqb_eq. }
+  destruct (convert_inv s g stds (Inv2_B s Hinv) Hok Hc) as (Hi & Hr & He & Hf & Hrecs & Hv).
+  split; [exact Hi|]. split; [exact Hr|]. split; [exact He|]. split; [exact Hf|]. split; [|split; [|exact Hv]].
+  - rewrite Hrecs, map_map. cbn [fst]. clear -Hlen. revert Hlen. generalize (st_recs s).
+    induction stds as [|v stds IH]; intros [|r recs] Hl; try discriminate; [reflexivity|]. cbn [combine map fst]. f_equal. apply IH. cbn in Hl. lia.
+  - intros n. rewrite Hrecs, map_map. rewrite <- (map_snd_combine stds (st_recs s) Hlen) at 2. rewrite map_map.
+    apply map_ext. now intros [v r].
+Qed.
+
+(* the dimensions a (possibly truncated) re-read yields from a state whose VLR registers every dimension *)
+Theorem reread_extras_spec s keep : Inv s -> op_okb s (Reread keep) = true ->
+  let kept := reread_kept keep (st_extras s) in
+  snd (step s (Reread keep)) = Ok tt
+  /\ st_extras (fst (step s (Reread keep))) = reread_extras kept (skipn (length kept) (st_extras s))
+  /\ st_vlrs (fst (step s (Reread keep))) = trunc_vlrs keep (st_vlrs s)
+  /\ map rec_bytes (st_recs (fst (step s (Reread keep)))) = map rec_bytes (st_recs s).
+Proof.
+  intros Hinv Hok kept. destruct (reread_inv2 s keep (Inv_2 s Hinv) Hok) as (_ & Hr & _ & Hv & Hb & _).
+  cbn [step]. split; [exact Hr|]. split; [|now split].
+  destruct Hinv as [HB HV]. pose proof HB as [(std & Hstd & _) _ _]. destruct (vlr_inv_desc _ _ HV) as [Hd Hnone].
+  rewrite (reread_general s std (st_extras s) [] keep HB Hstd (eq_sym (app_nil_r _)) Hd (fun H _ => Hnone H)).
+  unfold reread_result. cbn [fst st_extras]. now rewrite app_nil_r.
+Qed.
+
+(* what a reader makes of any VLR list: the VLRs that are not the extra-bytes record are never touched *)
+Lemma read_state_facts w s' : read_state w = Ok s' ->
+  st_fmt s' = w_fmt w /\ filter not_eb (st_vlrs s') = filter not_eb (w_vlrs w).
+Proof.
+  unfold read_state. destruct (std_size (w_fmt w)) as [std|]; [|discriminate].
+  destruct (filter is_eb_vlr (w_vlrs w)) as [|eb l].
+  - cbn [bind]. destruct (_ <? _); [discriminate|]. destruct (forallb _ _); [|discriminate]. intros [= <-]. now split.
+  - destruct (w_psize w =? std).
+    + cbn [bind]. destruct (_ <? _); [discriminate|]. destruct (forallb _ _); [|discriminate]. intros [= <-].
+      cbn [st_fmt st_vlrs]. split; [reflexivity|apply filter_not_eb_idem].
+    + destruct (dec_ebs _ _) as [ex|]; [|discriminate]. cbn [bind]. destruct (_ <? _); [discriminate|].
+      destruct (forallb _ _); [|discriminate]. intros [= <-]. now split.
+Qed.
+
+Lemma write_state_facts s w : write_state s = Ok w -> w_fmt w = st_fmt s /\ w_vlrs w = st_vlrs s.
+Proof. unfold write_state. destruct (std_size _); [|discriminate]. intros [= <-]. now split. Qed.
+
+(* the VLRs that are not the extra-bytes record are never touched, and keep their order *)
+Theorem other_vlrs_step s o : Inv2 s -> filter not_eb (st_vlrs (fst (step s o))) = filter not_eb (st_vlrs s).
+Proof.
+  intros Hinv. pose proof (Inv2_B s Hinv) as HB. pose proof HB as [_ Hdims _].
+  destruct o as [ps|names|n vals|vals|ex0 recs0| |g stds|keep]; cbn [step].
   - unfold do_add. destruct (forallb edim_okb ps) eqn:Eps; cbn [negb]; [|reflexivity].
     assert (forallb edim_okb (st_extras s ++ ps) = true) as Hall by (rewrite forallb_app, Hdims, Eps; reflexivity).
     now destruct (sync_inv _ (st_vlrs s) Hall) as (vl' & -> & _ & Hk).
   - unfold do_remove. destruct (negb _); [reflexivity|].
     now destruct (sync_inv _ (st_vlrs s) (forallb_filter _ (fun d => negb (mem_name (ed_name d) names)) _ Hdims)) as (vl' & -> & _ & Hk).
-  - unfold do_assign. destruct (find_dim _ _); [|reflexivity]. now destruct (_ && _).
-  - unfold do_assign_std. destruct (std_size _); [|reflexivity]. now destruct (_ && _).
-  - unfold do_set_points. destruct (std_size _); [|reflexivity]. destruct (negb _); [reflexivity|]. now destruct (negb _).
+  - now destruct (assign_shape s n vals HB) as (recs' & -> & _).
+  - now destruct (assign_std_shape s vals HB) as (recs' & -> & _).
+  - now destruct (set_points_shape s ex0 recs0 HB) as (recs' & -> & _).
   - now rewrite do_roundtrip_id.
+  - unfold do_convert. destruct (std_size g); [|reflexivity]. destruct (_ && _); [|reflexivity].
+    now destruct (sync_inv _ (st_vlrs s) Hdims) as (vl' & -> & _ & Hk).
+  - unfold do_reread. destruct (write_state s) as [w|] eqn:Ew; [|reflexivity]. destruct (read_state _) as [s'|] eqn:Er; [|reflexivity].
+    cbn [fst]. destruct (read_state_facts _ _ Er) as [_ ->]. cbn [w_vlrs]. destruct (write_state_facts _ _ Ew) as [_ ->].
+    apply other_vlrs_trunc.
 Qed.
 
+(* only a conversion changes the point format id *)
+Theorem step_fmt s o : Inv2 s -> (forall g stds, o <> Convert g stds) -> st_fmt (fst (step s o)) = st_fmt s.
+Proof.
+  intros Hinv Hnc. pose proof (Inv2_B s Hinv) as HB.
+  destruct o as [ps|names|n vals|vals|ex0 recs0| |g stds|keep]; cbn [step].
+  - unfold do_add. destruct (negb _); [reflexivity|]. now destruct (sync_vlrs _ _).
+  - unfold do_remove. destruct (negb _); [reflexivity|]. now destruct (sync_vlrs _ _).
+  - now destruct (assign_shape s n vals HB) as (recs' & -> & _).
+  - now destruct (assign_std_shape s vals HB) as (recs' & -> & _).
+  - now destruct (set_points_shape s ex0 recs0 HB) as (recs' & -> & _).
+  - now rewrite do_roundtrip_id.
+  - now destruct (Hnc g stds).
+  - unfold do_reread. destruct (write_state s) as [w|] eqn:Ew; [|reflexivity]. destruct (read_state _) as [s'|] eqn:Er; [|reflexivity].
+    cbn [fst]. destruct (read_state_facts _ _ Er) as [-> _]. cbn [w_fmt]. now destruct (write_state_facts _ _ Ew) as [-> _].
+Qed.
 (* ------------------------------------------------------------------------------------ *)
 (* tie to the header reader of Model/Las.v (dec_header): the size it derives from the     *)
 (* extra-bytes VLR written by this model is the size of the extra dimensions              *)
@@ -989,53 +1673,53 @@ Qed.
 (* ------------------------------------------------------------------------------------ *)
 (* the invariant, spelled out along a history                                            *)
 (* ------------------------------------------------------------------------------------ *)
-Lemma step_fmt s o : Inv s -> st_fmt (fst (step s o)) = st_fmt s.
-Proof.
-  intros Hinv. destruct o as [ps|names|n vals|vals|ex0 recs0|]; cbn [step].
-  - unfold do_add. destruct (negb _); [reflexivity|]. now destruct (sync_vlrs _ _).
-  - unfold do_remove. destruct (negb _); [reflexivity|]. now destruct (sync_vlrs _ _).
-  - unfold do_assign. destruct (find_dim _ _); [|reflexivity]. now destruct (_ && _).
-  - unfold do_assign_std. destruct (std_size _); [|reflexivity]. now destruct (_ && _).
-  - unfold do_set_points. destruct (std_size _); [|reflexivity]. destruct (negb _); [reflexivity|]. now destruct (negb _).
-  - now rewrite do_roundtrip_id.
-Qed.
-
-Theorem run_fmt ops : forall s, Inv s -> ops_okb s ops = true -> st_fmt (run s ops) = st_fmt s.
-Proof.
-  induction ops as [|o ops IH]; intros s Hinv Hok; [reflexivity|].
-  cbn [ops_okb] in Hok. apply andb_true_iff in Hok as [Ho Hr]. unfold run. cbn [fold_left]. fold (run (fst (step s o)) ops).
-  rewrite IH; [now apply step_fmt|now apply step_inv|exact Hr].
-Qed.
-
-Theorem run_record_length s ops : Inv s -> ops_okb s ops = true ->
-  exists std, std_size (st_fmt s) = Some std
+Theorem run_record_length s ops : Inv2 s -> ops_okb s ops = true ->
+  exists std, std_size (st_fmt (run s ops)) = Some std
               /\ forall r, In r (st_recs (run s ops)) -> len (rec_bytes r) = std + extras_size (st_extras (run s ops)).
 Proof.
-  intros Hinv Hok. destruct (run_inv ops s Hinv Hok) as [(std & Hstd & _ & Hrecs) _ _ _].
-  rewrite (run_fmt ops s Hinv Hok) in Hstd. exists std. split; [exact Hstd|]. intros r Hr. now apply rec_wf_len, Hrecs.
+  intros Hinv Hok. destruct (run_inv2 ops s Hinv Hok) as [[(std & Hstd & _ & Hrecs) _ _] _].
+  exists std. split; [exact Hstd|]. intros r Hr. now apply rec_wf_len, Hrecs.
 Qed.
 
-Theorem run_vlr s ops : Inv s -> ops_okb s ops = true ->
-  match st_extras (run s ops) with
-  | [] => filter is_eb_vlr (st_vlrs (run s ops)) = []
-  | ex => exists p, filter is_eb_vlr (st_vlrs (run s ops)) = [eb_vlr p]
+Theorem inv_vlr_spelled s : Inv s ->
+  match st_extras s with
+  | [] => filter is_eb_vlr (st_vlrs s) = []
+  | ex => exists p, filter is_eb_vlr (st_vlrs s) = [eb_vlr p]
                     /\ eb_payload ex = Ok p /\ len p = eb_struct_size * len ex
                     /\ dec_ebs (length p) p = Ok ex
   end.
 Proof.
-  intros Hinv Hok. destruct (run_inv ops s Hinv Hok) as [_ Hdims _ Hvlr]. unfold vlr_inv in Hvlr.
-  destruct (st_extras (run s ops)) as [|d ex]; [exact Hvlr|]. destruct Hvlr as (p & Hp & Hf & Hd).
+  intros [[_ Hdims _] Hvlr]. unfold vlr_inv in Hvlr.
+  destruct (st_extras s) as [|d ex]; [exact Hvlr|]. destruct Hvlr as (p & Hp & Hf & Hd).
   exists p. repeat split; try assumption.
   destruct (payload_roundtrip _ Hdims) as (p' & Hp' & Hl & _). rewrite Hp in Hp'. injection Hp' as <-.
   unfold len. rewrite Hl, EB_val. change eb_struct_size with 192. lia.
 Qed.
 
-Theorem run_names s ops : Inv s -> ops_okb s ops = true ->
+(* right after a file with un-registered trailing bytes was read, and until the next add / remove / conversion: the
+   VLR (if there is one) describes exactly the dimensions before the last one, which is the opaque "ExtraBytes" *)
+Theorem inv2_vlr_spelled s : Inv2 s -> ~ Inv s ->
+  exists reg n, st_extras s = reg ++ [unreg n] /\ 1 <= n <= 255
+    /\ match filter is_eb_vlr (st_vlrs s) with
+       | [] => reg = []
+       | [v] => exists p, v = eb_vlr p /\ eb_payload reg = Ok p /\ dec_ebs (length p) p = Ok reg
+       | _ => False
+       end.
+Proof.
+  intros [HB [HV|(reg & n & Hex & Hn & Hd)]] Hnot; [exfalso; apply Hnot; now split|].
+  exists reg, n. split; [exact Hex|]. split.
+  - split; [exact Hn|]. apply edim_ok_unreg_inv; [exact Hn|]. destruct HB as [_ Hdims _]. rewrite Hex, forallb_app in Hdims.
+    apply andb_true_iff in Hdims as [_ H]. cbn [forallb] in H. now rewrite andb_true_r in H.
+  - unfold vlr_desc in Hd. destruct (filter is_eb_vlr (st_vlrs s)) as [|v [|v2 l]]; [exact Hd| |exact Hd].
+    destruct Hd as (p & Hp & Hv & Hdec). exists p. now repeat split.
+Qed.
+
+Theorem run_names s ops : Inv2 s -> ops_okb s ops = true ->
   NoDup (extra_names (st_extras (run s ops)))
-  /\ (forall n, In n (extra_names (st_extras (run s ops))) -> ~ In n (std_names (st_fmt s)))
+  /\ (forall n, In n (extra_names (st_extras (run s ops))) -> ~ In n (std_names (st_fmt (run s ops))))
   /\ forallb edim_okb (st_extras (run s ops)) = true.
 Proof.
-  intros Hinv Hok. destruct (run_inv ops s Hinv Hok) as [_ Hdims [Hnd Hns] _].
-  rewrite (run_fmt ops s Hinv Hok) in Hns. split; [now apply nodupb_NoDup|]. split; [|exact Hdims].
+  intros Hinv Hok. destruct (run_inv2 ops s Hinv Hok) as [[_ Hdims [Hnd Hns]] _].
+  split; [now apply nodupb_NoDup|]. split; [|exact Hdims].
   intros n Hn. pose proof (proj1 (forallb_forall _ _) Hns n Hn) as Hf. apply negb_true_iff in Hf. now apply mem_name_false.
 Qed.
